@@ -1,4 +1,4 @@
-(* C15 — proofs about the invoice registry model (Model.v). *)
+(* C15 — proofs about the invoice registry model (Model.v), AMP included. *)
 From Coq Require Import List NArith ZArith Bool Lia.
 From LV Require Import Invoice.Model.
 Import ListNotations.
@@ -512,6 +512,293 @@ Qed.
 End Inv.
 
 (* ------------------------------------------------------------------ *)
+(* AMP transitions preserve amp_ok                                      *)
+
+Section AmpInv.
+Variable H : N -> N.
+Variable R : list (N * N) -> list (N * N).
+Variable g : cfg.
+
+Notation amp_ok := (amp_ok H g).
+
+Lemma wsum_mapf P Q (f : N * htlc -> N * htlc) l :
+  (forall kh, In kh l -> h_amt (snd (f kh)) = h_amt (snd kh) /\ P (snd (f kh)) = Q (snd kh)) ->
+  wsum P (map f l) = wsum Q l.
+Proof.
+  induction l as [|[k h] r IH]; simpl; [reflexivity|]. intros X.
+  destruct (X (k, h)) as [A B]; [auto|]. simpl in A, B.
+  destruct (f (k, h)) as [k' h'] eqn:F. simpl in *. rewrite A, B.
+  rewrite IH; [reflexivity|]. intros; apply X; auto.
+Qed.
+
+Lemma wsum_filter P (q : N * htlc -> bool) l :
+  (forall kh, In kh l -> P (snd kh) = true -> q kh = true) ->
+  wsum P (filter q l) = wsum P l.
+Proof.
+  induction l as [|[k h] r IH]; simpl; [reflexivity|]. intros X.
+  destruct (q (k, h)) eqn:Q; simpl.
+  - rewrite IH; [reflexivity|]. intros; apply X; auto.
+  - destruct (P h) eqn:PH.
+    + rewrite (X (k, h)) in Q; auto. discriminate.
+    + apply IH. intros; apply X; auto.
+Qed.
+
+Lemma wsum_filter_true (q : N * htlc -> bool) Q l :
+  (forall kh, q kh = Q (snd kh)) ->
+  wsum (fun _ => true) (filter q l) = wsum Q l.
+Proof.
+  intro E. induction l as [|[k h] r IH]; simpl; [reflexivity|].
+  rewrite E. simpl. destruct (Q h); simpl; rewrite IH; reflexivity.
+Qed.
+
+Lemma nodup_map_filter (q : N * htlc -> bool) l :
+  NoDup (map fst l) -> NoDup (map fst (filter q l)).
+Proof.
+  induction l as [|[k h] r IH]; simpl; [auto|]. intro ND. inv ND.
+  destruct (q (k, h)); simpl; [|auto]. constructor; [|auto].
+  intro X. apply H2. apply in_map_iff in X. destruct X as [[k' h'] [E I]]. simpl in E. subst.
+  apply filter_In in I. destruct I as [I _]. apply (in_map fst) in I. exact I.
+Qed.
+
+Lemma amp_data_ok_terms i st hs paid sets h :
+  amp_data_ok g i h -> amp_data_ok g (with_amp i st hs paid sets) h.
+Proof. unfold amp_data_ok. simpl. tauto. Qed.
+
+Lemma batch_accepted gen h : h_state h <> HSettled -> batch gen h = false.
+Proof.
+  unfold batch. intro X. apply is_state_false in X. rewrite X. reflexivity.
+Qed.
+
+(* A1: record a new accepted htlc *)
+Lemma amp_ok_cons i k h paid sets :
+  amp_ok i -> find_htlc k (i_htlcs i) = None -> amp_data_ok g i h -> h_state h = HAccepted ->
+  amp_ok (with_amp i (i_state i) ((k, h) :: i_htlcs i) paid sets).
+Proof.
+  intros OK FR D HA. constructor; simpl.
+  - constructor; [apply find_htlc_none; exact FR|apply OK].
+  - apply OK.
+  - intros k0 h0 [E|I]; [inv E|]; apply amp_data_ok_terms; auto. eapply ao_data; eauto.
+  - intros k0 h0 [E|I] S; [inv E; congruence|]. eapply ao_pre; eauto.
+  - intros k0 h0 [E|I] S; [inv E; congruence|].
+    destruct (ao_gen H g i OK k0 h0 I S) as [hg [IG EG]]. exists hg. auto.
+  - intros k1 h1 k2 h2 [E1|I1] [E2|I2] S1 S2 G; try (inv E1; congruence); try (inv E2; congruence).
+    eapply (ao_common H g i OK); eauto.
+  - intros k0 h0 [E|I] S; [inv E; congruence|].
+    rewrite batch_accepted by congruence. eapply ao_complete; eauto.
+Qed.
+
+(* A2: some accepted htlcs become canceled (any state of the invoice) *)
+Definition cancels (h h' : htlc) : Prop :=
+  h' = h \/ (h_state h = HAccepted /\ h' = set_hstate h HCanceled).
+
+Lemma amp_ok_mapf i st' (f : N * htlc -> N * htlc) paid sets :
+  amp_ok i -> st' = COpen \/ st' = CCanceled ->
+  (forall kh, fst (f kh) = fst kh) ->
+  (forall kh, In kh (i_htlcs i) -> cancels (snd kh) (snd (f kh))) ->
+  amp_ok (with_amp i st' (map f (i_htlcs i)) paid sets).
+Proof.
+  intros OK ST FK FC.
+  assert (BACK : forall k h', In (k, h') (map f (i_htlcs i)) ->
+                 exists h, In (k, h) (i_htlcs i) /\ cancels h h').
+  { intros k h' I. apply in_map_iff in I. destruct I as [[k0 h0] [E I]].
+    generalize (FK (k0, h0)) (FC (k0, h0) I). rewrite E. simpl. intros; subst. eauto. }
+  assert (SET : forall h h', cancels h h' -> h_state h' = HSettled -> h' = h).
+  { intros h h' [E|[A E]] S; [auto|]. subst. simpl in S. discriminate. }
+  assert (FWD : forall k h, In (k, h) (i_htlcs i) -> exists h', In (k, h') (map f (i_htlcs i)) /\ cancels h h').
+  { intros k h I. exists (snd (f (k, h))). split; [|apply (FC (k, h) I)].
+    apply in_map_iff. exists (k, h). split; [|auto].
+    generalize (FK (k, h)). destruct (f (k, h)); simpl. intros; subst; reflexivity. }
+  assert (WS : forall gen, wsum (batch gen) (map f (i_htlcs i)) = wsum (batch gen) (i_htlcs i)).
+  { intro gen. apply wsum_mapf. intros kh I. destruct (FC kh I) as [E|[A E]]; rewrite E.
+    - auto.
+    - simpl. split; [reflexivity|]. unfold batch, is_state. simpl. rewrite A. reflexivity. }
+  constructor; simpl.
+  - rewrite map_map. erewrite map_ext; [apply OK|]. intros; apply FK.
+  - exact ST.
+  - intros k h' I. destruct (BACK k h' I) as [h [IH C]]. apply amp_data_ok_terms.
+    generalize (ao_data H g i OK k h IH). destruct C as [E|[A E]]; subst; auto.
+  - intros k h' I S. destruct (BACK k h' I) as [h [IH C]]. assert (EQ := SET _ _ C S); subst h'.
+    eapply (ao_pre H g i OK); eauto.
+  - intros k h' I S. destruct (BACK k h' I) as [h [IH C]]. assert (EQ := SET _ _ C S); subst h'.
+    destruct (ao_gen H g i OK k h IH S) as [hg [IG EG]].
+    destruct (FWD _ _ IG) as [hg' [IG' CG]]. exists hg'. split; [auto|].
+    destruct CG as [E|[A E]]; subst; auto.
+  - intros k1 x1 k2 x2 I1 I2 S1 S2 G.
+    destruct (BACK _ _ I1) as [h1 [J1 C1]]. destruct (BACK _ _ I2) as [h2 [J2 C2]].
+    assert (EQ1 := SET _ _ C1 S1). assert (EQ2 := SET _ _ C2 S2). subst x1 x2.
+    eapply (ao_common H g i OK); eauto.
+  - intros k h' I S. destruct (BACK k h' I) as [h [IH C]]. assert (EQ := SET _ _ C S); subst h'.
+    rewrite WS. eapply ao_complete; eauto.
+Qed.
+
+Lemma amp_cancel_invoice_ok i P i' :
+  amp_ok i -> amp_cancel_invoice i P = Some i' -> amp_ok i' /\ i_hash i' = i_hash i /\ i_amp i' = i_amp i.
+Proof.
+  intros OK. unfold amp_cancel_invoice. destruct (any_htlc _ _); [discriminate|].
+  destruct (amp_cancel_fold _ _ _) as [[paid sets]|]; [|discriminate]. intro X; inv X.
+  split; [|split; reflexivity]. unfold map_htlcs.
+  apply amp_ok_mapf; auto.
+  intros [k h] _. simpl. unfold cancel_sel, cancels.
+  destruct (P h && is_state HAccepted h) eqn:E; [|auto].
+  right. apply andb_true_iff in E. destruct E as [_ E]. apply is_state_iff in E. auto.
+Qed.
+
+Lemma amp_cancel_one_ok i k h i' :
+  amp_ok i -> find_htlc k (i_htlcs i) = Some h -> h_state h = HAccepted ->
+  amp_cancel_one i k h = Some i' -> amp_ok i' /\ i_hash i' = i_hash i /\ i_amp i' = i_amp i.
+Proof.
+  intros OK F HA. unfold amp_cancel_one. destruct (amp_cancel_acct _ _) as [[paid sets]|]; [|discriminate].
+  intro X; inv X. split; [|split; reflexivity]. unfold set_htlc_state.
+  apply amp_ok_mapf; auto.
+  - apply OK.
+  - intros [k0 h0]. simpl. destruct (N.eqb k0 k); reflexivity.
+  - intros [k0 h0] I. simpl. unfold cancels. destruct (N.eqb_spec k0 k); simpl; [|auto]. subst.
+    right. apply (in_find_htlc _ _ _ (ao_nodup H g i OK)) in I. split; congruence.
+Qed.
+
+(* A3: settle the accepted htlcs of one set *)
+Definition settles (sid gen : N) (h h' : htlc) : Prop :=
+  (in_set sid h && is_state HAccepted h = false /\ h' = h) \/
+  (in_set sid h = true /\ h_state h = HAccepted /\
+   exists p, h' = amp_settled h p gen /\ H p = h_hash h).
+
+Lemma amp_settle_spec sid gen pm l l' :
+  amp_settle_htlcs H sid gen pm l = Some l' ->
+  map fst l' = map fst l /\
+  (forall k h', In (k, h') l' -> exists h, In (k, h) l /\ settles sid gen h h') /\
+  (forall k h, In (k, h) l -> exists h', In (k, h') l' /\ settles sid gen h h') /\
+  (forall P Q, (forall k h h', In (k, h) l -> settles sid gen h h' ->
+                h_amt h' = h_amt h -> P h' = Q h) -> wsum P l' = wsum Q l).
+Proof.
+  revert l'. induction l as [|[k h] r IH]; simpl; intros l' E.
+  - inv E. repeat split; intros; try contradiction; try reflexivity.
+  - destruct (amp_settle_htlcs H sid gen pm r) as [r'|]; [|discriminate].
+    destruct (IH r' eq_refl) as (K & B & F & W).
+    destruct (in_set sid h && is_state HAccepted h) eqn:C.
+    + destruct (match find_pre k pm with Some p => _ | None => _ end) as [[p|]|]; try discriminate.
+      destruct (N.eqb_spec (H p) (h_hash h)) as [HP|]; [|discriminate]. inv E.
+      apply andb_true_iff in C. destruct C as [C1 C2]. apply is_state_iff in C2.
+      assert (S : settles sid gen h (amp_settled h p gen)) by (right; eauto).
+      split; [|split; [|split]].
+      * simpl. congruence.
+      * intros k0 h' [X|X]; [inversion X; subst; eexists; split; [left; reflexivity|eassumption]|].
+        destruct (B _ _ X) as [h0 [I0 S0]]. exists h0. split; [right; exact I0|exact S0].
+      * intros k0 h0 [X|X]; [inversion X; subst; eexists; split; [left; reflexivity|eassumption]|].
+        destruct (F _ _ X) as [h1 [I1 S1]]. exists h1. split; [right; exact I1|exact S1].
+      * intros P Q X. simpl. rewrite (X k h (amp_settled h p gen)); auto.
+        rewrite (W P Q); [reflexivity|]. intros; eapply X; eauto.
+    + inv E. assert (S : settles sid gen h h) by (left; auto).
+      split; [|split; [|split]].
+      * simpl. congruence.
+      * intros k0 h' [X|X]; [inversion X; subst; eexists; split; [left; reflexivity|eassumption]|].
+        destruct (B _ _ X) as [h0 [I0 S0]]. exists h0. split; [right; exact I0|exact S0].
+      * intros k0 h0 [X|X]; [inversion X; subst; eexists; split; [left; reflexivity|eassumption]|].
+        destruct (F _ _ X) as [h1 [I1 S1]]. exists h1. split; [right; exact I1|exact S1].
+      * intros P Q X. simpl. rewrite (X k h h); auto.
+        rewrite (W P Q); [reflexivity|]. intros; eapply X; eauto.
+Qed.
+
+Lemma in_set_iff sid h : in_set sid h = true <-> h_set h = Some sid.
+Proof.
+  unfold in_set. destruct (h_set h) as [s|]; [|split; discriminate].
+  destruct (N.eqb_spec s sid); split; intro X; try congruence; try discriminate.
+Qed.
+
+(* the htlcs of set sid that are accepted: same total, enough in sum *)
+Lemma amp_ok_settle i sid gen pm l' paid sets st' total :
+  amp_ok i ->
+  amp_settle_htlcs H sid gen pm (i_htlcs i) = Some l' ->
+  st' = COpen \/ st' = CCanceled ->
+  (forall k h, In (k, h) (i_htlcs i) -> h_state h = HSettled -> h_gen h <> gen) ->
+  (exists hg, In (gen, hg) (i_htlcs i) /\ in_set sid hg = true) ->
+  (forall k h, In (k, h) (i_htlcs i) -> in_set sid h = true -> h_state h = HAccepted ->
+               h_total h = total) ->
+  (total <= wsum (fun h => in_set sid h && is_state HAccepted h) (i_htlcs i))%N ->
+  amp_ok (with_amp i st' l' paid sets).
+Proof.
+  intros OK E ST FRESH [hg [IG SG]] TOT SUM.
+  destruct (amp_settle_spec _ _ _ _ _ E) as (K & B & F & W).
+  assert (OLD : forall h h', settles sid gen h h' -> h_state h = HSettled -> h' = h).
+  { intros h h' [[_ X]|[_ [A _]]] S; [auto|congruence]. }
+  assert (NEW : forall h h', settles sid gen h h' -> h_state h' = HSettled ->
+                (h_state h = HSettled /\ h' = h) \/
+                (in_set sid h = true /\ h_state h = HAccepted /\
+                 exists p, h' = amp_settled h p gen /\ H p = h_hash h)).
+  { intros h h' [[_ X]|X] S; [left; subst; auto|right; auto]. }
+  constructor; simpl.
+  - rewrite K. apply OK.
+  - exact ST.
+  - intros k h' I. destruct (B _ _ I) as [h [IH S]]. apply amp_data_ok_terms.
+    generalize (ao_data H g i OK k h IH).
+    destruct S as [[_ X]|[_ [_ [p [X _]]]]]; subst; auto.
+  - intros k h' I S. destruct (B _ _ I) as [h [IH ST0]].
+    destruct (NEW _ _ ST0 S) as [[S0 X]|[_ [_ [p [X HP]]]]]; subst.
+    + eapply ao_pre; eauto.
+    + exists p. simpl. auto.
+  - intros k h' I S. destruct (B _ _ I) as [h [IH ST0]].
+    destruct (NEW _ _ ST0 S) as [[S0 X]|[IS [_ [p [X HP]]]]]; subst.
+    + destruct (ao_gen H g i OK k h IH S0) as [h1 [I1 E1]].
+      destruct (F _ _ I1) as [h1' [I1' S1]]. exists h1'. split; [auto|].
+      destruct S1 as [[_ X]|[_ [_ [p [X _]]]]]; subst; auto.
+    + simpl. destruct (F _ _ IG) as [hg' [IG' S1]]. exists hg'. split; [auto|].
+      apply in_set_iff in IS. apply in_set_iff in SG.
+      destruct S1 as [[_ X]|[_ [_ [p' [X _]]]]]; subst; simpl; congruence.
+  - intros k1 x1 k2 x2 I1 I2 S1 S2 G.
+    destruct (B _ _ I1) as [h1 [J1 T1]]. destruct (B _ _ I2) as [h2 [J2 T2]].
+    destruct (NEW _ _ T1 S1) as [[A1 X1]|[A1 [C1 [p1 [X1 _]]]]];
+      destruct (NEW _ _ T2 S2) as [[A2 X2]|[A2 [C2 [p2 [X2 _]]]]]; subst; simpl in *.
+    + eapply (ao_common H g i OK); eauto.
+    + exfalso. apply (FRESH _ _ J1 A1). congruence.
+    + exfalso. apply (FRESH _ _ J2 A2). congruence.
+    + apply in_set_iff in A1. apply in_set_iff in A2. split; [congruence|].
+      rewrite (TOT _ _ J1), (TOT _ _ J2); auto; apply in_set_iff; auto.
+  - intros k h' I S. destruct (B _ _ I) as [h [IH ST0]].
+    destruct (NEW _ _ ST0 S) as [[S0 X]|[IS [HA [p [X HP]]]]]; subst.
+    + rewrite (W (batch (h_gen h)) (batch (h_gen h))); [eapply ao_complete; eauto|].
+      intros k0 h0 h0' I0 T0 _.
+      destruct T0 as [[_ X]|[_ [A0 [p [X _]]]]]; subst; [reflexivity|].
+      unfold batch, is_state. simpl. rewrite A0. simpl.
+      destruct (N.eqb_spec gen (h_gen h)); [|reflexivity]. exfalso. apply (FRESH _ _ IH S0). congruence.
+    + simpl. rewrite (TOT _ _ IH IS HA).
+      rewrite (W (batch gen) (fun h => in_set sid h && is_state HAccepted h)); [exact SUM|].
+      intros k0 h0 h0' I0 T0 _.
+      destruct T0 as [[C X]|[A0 [B0 [p0 [X _]]]]]; subst.
+      * rewrite C. unfold batch. destruct (is_state HSettled h0) eqn:S0; [|reflexivity].
+        apply is_state_iff in S0. simpl.
+        destruct (N.eqb_spec (h_gen h0) gen); [|reflexivity]. exfalso. apply (FRESH _ _ I0 S0). congruence.
+      * unfold batch, is_state. simpl. rewrite N.eqb_refl, A0, B0. reflexivity.
+Qed.
+
+(* A4: the KV store drops htlcs, whole batches at a time *)
+Lemma amp_ok_filter i (q : N * htlc -> bool) st' paid sets :
+  amp_ok i -> st' = COpen \/ st' = CCanceled ->
+  (forall k h k' h', In (k, h) (i_htlcs i) -> In (k', h') (i_htlcs i) ->
+     h_state h = HSettled -> h_state h' = HSettled -> h_gen h' = h_gen h ->
+     q (k, h) = true -> q (k', h') = true) ->
+  (forall k h hg, In (k, h) (i_htlcs i) -> h_state h = HSettled -> q (k, h) = true ->
+     In (h_gen h, hg) (i_htlcs i) -> q (h_gen h, hg) = true) ->
+  amp_ok (with_amp i st' (filter q (i_htlcs i)) paid sets).
+Proof.
+  intros OK ST CL GN. constructor; simpl.
+  - apply nodup_map_filter. apply OK.
+  - exact ST.
+  - intros k h I. apply filter_In in I. destruct I as [I _]. apply amp_data_ok_terms.
+    eapply ao_data; eauto.
+  - intros k h I S. apply filter_In in I. destruct I as [I _]. eapply ao_pre; eauto.
+  - intros k h I S. apply filter_In in I. destruct I as [I Q].
+    destruct (ao_gen H g i OK k h I S) as [hg [IG EG]]. exists hg. split; [|auto].
+    apply filter_In. split; [auto|]. eapply GN; eauto.
+  - intros k1 h1 k2 h2 I1 I2. apply filter_In in I1. apply filter_In in I2.
+    destruct I1 as [I1 _], I2 as [I2 _]. eapply (ao_common H g i OK); eauto.
+  - intros k h I S. apply filter_In in I. destruct I as [I Q].
+    rewrite wsum_filter; [eapply ao_complete; eauto|].
+    intros [k' h'] I' BT. unfold batch in BT. apply andb_true_iff in BT. destruct BT as [S' G'].
+    apply is_state_iff in S'. apply N.eqb_eq in G'. simpl in *. eapply CL; eauto.
+Qed.
+
+End AmpInv.
+
+(* ------------------------------------------------------------------ *)
 (* every step preserves the invariant                                   *)
 
 Section Steps.
@@ -519,45 +806,12 @@ Variable H : N -> N.
 Variable g : cfg.
 
 Notation inv_ok := (inv_ok H g).
-Notation state_ok := (state_ok H g).
-
-Lemma state_ok_put st i0 i' sb :
-  state_ok st -> In i0 (invs st) -> i_hash i' = i_hash i0 -> inv_ok i' ->
-  state_ok (mkState (put_inv i' (invs st)) sb).
-Proof.
-  intros [ND OK] I E OI. split; simpl.
-  - rewrite put_inv_hashes. exact ND.
-  - intros x X. apply in_put_inv in X. destruct X as [X|[X _]]; subst; auto.
-Qed.
-
-Lemma state_ok_subs st sb : state_ok st -> state_ok (mkState (invs st) sb).
-Proof. intros [A B]. split; auto. Qed.
 
 Lemma map_htlcs_id f l :
   (forall k h, In (k, h) l -> f h = h) -> map_htlcs f l = l.
 Proof.
   induction l as [|[k h] r IH]; simpl; [reflexivity|]. intro X.
   rewrite (X k h) by auto. rewrite IH; [reflexivity|]. intros; eapply X; eauto.
-Qed.
-
-Lemma add_invoice_ok st i st' a :
-  state_ok st -> add_invoice g st i = (st', a) -> state_ok st'.
-Proof.
-  intros [ND OK]. unfold add_invoice.
-  destruct (_ && _ && _); [intro X; inv X; split; auto|].
-  destruct (find_by_hash (i_hash i) (invs st)) eqn:F; [intro X; inv X; split; auto|].
-  destruct (_ && _); intro X; inv X; [split; auto|].
-  split; simpl.
-  - constructor; [|exact ND]. intro I. apply in_map_iff in I. destruct I as [x [E I]].
-    unfold find_by_hash in F. eapply find_none in F; eauto. rewrite E, N.eqb_refl in F. discriminate.
-  - intros x [E|I]; [|auto]. subst. constructor; simpl.
-    + constructor.
-    + intros k h [].
-    + intros _ k h [].
-    + discriminate.
-    + discriminate.
-    + intros k h k' h' [].
-    + intros [E|E]; discriminate.
 Qed.
 
 Lemma new_htlc_data c i total addr :
@@ -770,43 +1024,120 @@ Qed.
 
 End Steps.
 
+
 (* ------------------------------------------------------------------ *)
 (* shape of a step: which invoice changes, and how                      *)
 
 Section Shape.
 Variable H : N -> N.
+Variable R : list (N * N) -> list (N * N).
 Variable g : cfg.
 
 Notation inv_ok := (inv_ok H g).
+Notation amp_ok := (amp_ok H g).
+Notation oki := (ok H g).
 Notation state_ok := (state_ok H g).
 
 Inductive trans (i i' : invoice) : Prop :=
 | T_add c h ns r :
+    i_amp i = false ->
     i_hash i = c_hash c -> update_invoice H g c i = UAdd h ns r ->
     apply_add H i (Some (c_hash c)) (c_key c) h ns = Some i' -> trans i i'
 | T_settle p : i_state i = CAccepted -> apply_settle_hodl H i p = Some i' -> trans i i'
-| T_cancel : i_state i = COpen \/ i_state i = CAccepted -> apply_cancel i = Some i' -> trans i i'
+| T_cancel : i_amp i = false ->
+             i_state i = COpen \/ i_state i = CAccepted -> apply_cancel i = Some i' -> trans i i'
 | T_timeout k h :
+    i_amp i = false ->
     i_state i = COpen -> find_htlc k (i_htlcs i) = Some h -> h_state h = HAccepted ->
     i' = with_htlcs i (i_state i) (i_pre i) (set_htlc_state k HCanceled (i_htlcs i)) (i_paid i) ->
-    trans i i'.
+    trans i i'
+| TA_accept c addr total h :
+    i_amp i = true -> find_htlc (c_key c) (i_htlcs i) = None ->
+    amp_update R g c i addr total = MAccept h ->
+    amp_apply_accept i (c_key c) h (c_set c) = Some i' -> trans i i'
+| TA_cancel P : i_amp i = true -> amp_cancel_invoice i P = Some i' -> trans i i'
+| TA_one k h : i_amp i = true -> find_htlc k (i_htlcs i) = Some h -> h_state h = HAccepted ->
+               amp_cancel_one i k h = Some i' -> trans i i'
+| TA_settle c addr total h pm hs :
+    i_amp i = true -> find_htlc (c_key c) (i_htlcs i) = None ->
+    amp_update R g c i addr total = MSettle h pm ->
+    amp_apply_settle H (g_kv g) i (c_key c) h (c_set c) pm = Some (i', hs) -> trans i i'.
 
 Inductive shape (l l' : list invoice) : Prop :=
 | S_same : l' = l -> shape l l'
 | S_new i : find_by_hash (i_hash i) l = None ->
-            l' = with_htlcs i COpen (i_pre i) [] 0%N :: l -> shape l l'
+            l' = with_amp i COpen [] 0%N [] :: l -> shape l l'
 | S_put i i' : In i l -> trans i i' -> l' = put_inv i' l -> shape l l'.
 
-Lemma trans_hash i i' : trans i i' -> i_hash i' = i_hash i.
+(* what amp_update's accepting outcomes say about the new htlc *)
+Lemma amp_update_facts c i addr total h :
+  (amp_update R g c i addr total = MAccept h \/ exists pm, amp_update R g c i addr total = MSettle h pm) ->
+  h = new_amp_htlc c total addr /\ i_state i = COpen /\ amp_data_ok g i h /\
+  (forall k0 h0, In (k0, h0) (i_htlcs i) -> in_set (c_set c) h0 = true -> h_state h0 = HAccepted ->
+                 h_total h0 = total).
 Proof.
-  intros [c h ns r E U A|p S A|S A|k hk S FK HK E].
+  intro U. unfold amp_update in U.
+  destruct (negb (cstate_eqb (i_state i) COpen)) eqn:ST; [destruct U as [U|[pm U]]; discriminate|].
+  apply negb_false_iff in ST. apply cstate_eqb_eq in ST.
+  destruct (negb (N.eqb addr (i_addr i))) eqn:EA; [destruct U as [U|[pm U]]; discriminate|].
+  apply negb_false_iff in EA. apply N.eqb_eq in EA.
+  destruct (N.eqb_spec total 0) as [|T0]; [destruct U as [U|[pm U]]; discriminate|].
+  destruct (N.ltb_spec total (i_value i)) as [|TV]; [destruct U as [U|[pm U]]; discriminate|].
+  destruct (any_htlc _ _) eqn:MM; [destruct U as [U|[pm U]]; discriminate|].
+  destruct (negb (expiry_ok g c i)) eqn:EX; [destruct U as [U|[pm U]]; discriminate|].
+  apply negb_false_iff in EX.
+  destruct (N.eqb (c_set c) 0); [destruct U as [U|[pm U]]; discriminate|].
+  assert (HH : h = new_amp_htlc c total addr).
+  { destruct (N.ltb _ total); [destruct U as [U|[pm U]]; [inv U; reflexivity|discriminate]|].
+    destruct (i_hodl i); [destruct U as [U|[pm U]]; discriminate|].
+    destruct (hashes_match _ _); destruct U as [U|[pm U]]; try discriminate. inv U. reflexivity. }
+  split; [exact HH|]. split; [exact ST|]. split.
+  - subst h addr. unfold expiry_ok in EX. apply andb_true_iff in EX. destruct EX as [E1 E2].
+    apply negb_true_iff in E1. apply negb_true_iff in E2.
+    apply Z.ltb_ge in E1. apply Z.ltb_ge in E2.
+    unfold amp_data_ok, new_amp_htlc. simpl. rewrite !u32_idem. repeat split; eauto.
+  - intros k0 h0 I0 S0 A0. rewrite any_htlc_false in MM.
+    assert (IF : In (k0, h0) (filter (fun kh => in_set (c_set c) (snd kh) && is_state HAccepted (snd kh))
+                                      (i_htlcs i))).
+    { apply filter_In. split; [auto|]. simpl. rewrite S0. apply is_state_iff in A0. rewrite A0. reflexivity. }
+    specialize (MM _ _ IF). apply negb_false_iff in MM. apply N.eqb_eq in MM. exact MM.
+Qed.
+
+Lemma amp_update_settle_sum c i addr total h pm :
+  amp_update R g c i addr total = MSettle h pm ->
+  (total <= wadd (h_amt h) (wsum (fun x => in_set (c_set c) x && is_state HAccepted x) (i_htlcs i)))%N.
+Proof.
+  intro U. assert (HH : h = new_amp_htlc c total addr) by (eapply amp_update_facts; eauto).
+  unfold amp_update in U.
+  destruct (negb _); [discriminate|]. destruct (negb _); [discriminate|].
+  destruct (N.eqb total 0); [discriminate|]. destruct (N.ltb total _); [discriminate|].
+  destruct (any_htlc _ _); [discriminate|]. destruct (negb _); [discriminate|].
+  destruct (N.eqb (c_set c) 0); [discriminate|].
+  destruct (N.ltb_spec (wadd (wsum (fun _ => true)
+     (filter (fun kh => in_set (c_set c) (snd kh) && is_state HAccepted (snd kh)) (i_htlcs i))) (c_amt c)) total)
+    as [|GE]; [discriminate|].
+  subst h. simpl. rewrite wadd_comm.
+  rewrite (wsum_filter_true _ (fun x => in_set (c_set c) x && is_state HAccepted x)) in GE; [exact GE|].
+  reflexivity.
+Qed.
+
+Lemma trans_hash i i' : trans i i' -> i_hash i' = i_hash i /\ i_amp i' = i_amp i.
+Proof.
+  intros [c h ns r NA E U A|p S A|NA S A|k hk NA S FK HK E|c addr total h NA F U A|P NA A|k h NA F HA A
+         |c addr total h pm hs NA F U A].
   - unfold apply_add in A. destruct (find_htlc _ _); [discriminate|].
     destruct (match ns with Some _ => _ | None => _ end); [|discriminate].
-    destruct (align_htlcs _ _); [|discriminate]. inv A. reflexivity.
+    destruct (align_htlcs _ _); [|discriminate]. inv A. auto.
   - unfold apply_settle_hodl in A. destruct (negb (i_hodl i)); [discriminate|].
-    destruct (negb _); [discriminate|]. destruct (negb _); [discriminate|]. inv A. reflexivity.
-  - unfold apply_cancel in A. destruct (align_htlcs _ _); [|discriminate]. inv A. reflexivity.
-  - subst. reflexivity.
+    destruct (negb _); [discriminate|]. destruct (negb _); [discriminate|]. inv A. auto.
+  - unfold apply_cancel in A. destruct (align_htlcs _ _); [|discriminate]. inv A. auto.
+  - subst. auto.
+  - unfold amp_apply_accept in A. destruct (any_htlc _ _); inv A. auto.
+  - unfold amp_cancel_invoice in A. destruct (any_htlc _ _); [discriminate|].
+    destruct (amp_cancel_fold _ _ _) as [[a b]|]; inv A. auto.
+  - unfold amp_cancel_one in A. destruct (amp_cancel_acct _ _) as [[a b]|]; inv A. auto.
+  - unfold amp_apply_settle in A. destruct (i_pre i); [discriminate|].
+    destruct (amp_settle_htlcs _ _ _ _ _); inv A. auto.
 Qed.
 
 Lemma update_invoice_ok c i h ns r i' :
@@ -821,41 +1152,136 @@ Proof.
     + eapply update_legacy_ok; eauto.
 Qed.
 
-Lemma trans_ok i i' : inv_ok i -> trans i i' -> inv_ok i'.
+Lemma find_none_notin k (l : list (N * htlc)) h : find_htlc k l = None -> In (k, h) l -> False.
+Proof. intros F I. apply find_htlc_none in F. apply F. apply (in_map fst) in I. exact I. Qed.
+
+Lemma amp_settle_ok i c addr total h pm i' hs :
+  amp_ok i -> find_htlc (c_key c) (i_htlcs i) = None ->
+  amp_update R g c i addr total = MSettle h pm ->
+  amp_apply_settle H (g_kv g) i (c_key c) h (c_set c) pm = Some (i', hs) -> amp_ok i'.
 Proof.
-  intros OK [c h ns r E U A|p S A|S A|k hk S FK HK E].
+  intros OK FR U A.
+  destruct (amp_update_facts c i addr total h (or_intror (ex_intro _ pm U))) as (HH & ST & D & TOT).
+  assert (SUM := amp_update_settle_sum _ _ _ _ _ _ U).
+  assert (HA : h_state h = HAccepted) by (subst h; reflexivity).
+  assert (HS : in_set (c_set c) h = true).
+  { subst h. unfold in_set, new_amp_htlc. simpl. apply N.eqb_refl. }
+  assert (HT : h_total h = total) by (subst h; reflexivity).
+  unfold amp_apply_settle in A. destruct (i_pre i); [discriminate|].
+  destruct (amp_settle_htlcs H (c_set c) (c_key c) pm ((c_key c, h) :: i_htlcs i)) as [hs2|] eqn:SE;
+    [|discriminate].
+  pose (j := with_amp i (i_state i) ((c_key c, h) :: i_htlcs i) 0%N []).
+  assert (OJ : amp_ok j) by (apply amp_ok_cons; auto).
+  assert (FRESH : forall k0 h0, In (k0, h0) (i_htlcs j) -> h_state h0 = HSettled -> h_gen h0 <> c_key c).
+  { simpl. intros k0 h0 [X|I0] S0; [inv X; congruence|].
+    destruct (ao_gen H g i OK k0 h0 I0 S0) as [hg [IG _]]. intro X. rewrite X in IG.
+    eapply find_none_notin; eauto. }
+  assert (O1 : forall st paid sets, st = COpen \/ st = CCanceled ->
+                                    amp_ok (with_amp j st hs2 paid sets)).
+  { intros st paid sets STX. eapply (amp_ok_settle H g j (c_set c) (c_key c) pm hs2 paid sets st total); eauto.
+    - exists h. split; [left; reflexivity|exact HS].
+    - simpl. intros k0 h0 [X|I0] S0 A0; [inv X; auto|eauto].
+    - simpl. rewrite HS. apply is_state_iff in HA. rewrite HA. simpl. exact SUM. }
+  destruct (g_kv g && match get_set (c_set c) (i_sets i) with Some (HSettled, _) => true | _ => false end);
+    injection A as EI EH; subst i' hs.
+  - (* KV: older records of the set are dropped *)
+    pose (j1 := with_amp j (i_state i) hs2 0%N []).
+    assert (OJ1 : amp_ok j1) by (apply O1; apply OK).
+    destruct (amp_settle_spec H _ _ _ _ _ SE) as (K & B & F & W).
+    match goal with |- amp_ok (with_amp i _ (filter ?q hs2) ?paid ?sets) =>
+      change (amp_ok (with_amp j1 (i_state i) (filter q (i_htlcs j1)) paid sets)); set (keep := q) end.
+    assert (ND1 : NoDup (map fst ((c_key c, h) :: i_htlcs i))) by apply (ao_nodup H g j OJ).
+    assert (FH : forall k0, (if (k0 =? c_key c)%N then Some h else find_htlc k0 (i_htlcs i)) =
+                            find_htlc k0 ((c_key c, h) :: i_htlcs i)) by reflexivity.
+    assert (KEEP : forall k0 x, In (k0, x) hs2 -> keep (k0, x) = true ->
+                   h_state x = HSettled -> in_set (c_set c) x = true -> h_gen x = c_key c).
+    { intros k0 x I0 Q S0 IS0. destruct (B _ _ I0) as [h0 [J0 T0]].
+      unfold keep in Q. cbn [fst snd] in Q. rewrite IS0 in Q. cbn [negb orb] in Q.
+      rewrite FH, (in_find_htlc _ _ _ ND1 J0) in Q.
+      destruct T0 as [[C X]|[_ [A0 [p [X _]]]]]; subst; [|reflexivity].
+      apply is_state_iff in Q. congruence. }
+    apply amp_ok_filter; [exact OJ1|apply OK| |]; cbn [i_htlcs j1 with_amp].
+    + intros k1 x1 k2 x2 I1 I2 S1 S2 G Q1.
+      destruct (in_set (c_set c) x2) eqn:IS2; [|unfold keep; cbn [fst snd]; rewrite IS2; reflexivity].
+      destruct (ao_common H g j1 OJ1 k1 x1 k2 x2 I1 I2 S1 S2 G) as [ES _].
+      assert (IS1 : in_set (c_set c) x1 = true) by (unfold in_set in *; rewrite <- ES; exact IS2).
+      assert (G1 := KEEP _ _ I1 Q1 S1 IS1).
+      destruct (B _ _ I2) as [h2 [J2 T2]]. unfold keep. cbn [fst snd]. rewrite IS2. cbn [negb orb].
+      rewrite FH, (in_find_htlc _ _ _ ND1 J2).
+      destruct T2 as [[C X]|[_ [A2 _]]]; [|apply is_state_iff; exact A2]. subst x2.
+      exfalso. apply (FRESH _ _ J2 S2). congruence.
+    + intros k1 x1 hg I1 S1 Q1 IG.
+      destruct (in_set (c_set c) hg) eqn:ISG; [|unfold keep; cbn [fst snd]; rewrite ISG; reflexivity].
+      destruct (ao_gen H g j1 OJ1 k1 x1 I1 S1) as [hg' [IG' EG']].
+      assert (hg' = hg).
+      { assert (NDJ := ao_nodup H g j1 OJ1). simpl in NDJ.
+        apply (in_find_htlc _ _ _ NDJ) in IG. apply (in_find_htlc _ _ _ NDJ) in IG'. congruence. }
+      subst hg'.
+      assert (IS1 : in_set (c_set c) x1 = true) by (unfold in_set in *; rewrite <- EG'; exact ISG).
+      rewrite (KEEP _ _ I1 Q1 S1 IS1). unfold keep. cbn [fst snd]. rewrite N.eqb_refl.
+      apply is_state_iff in HA. rewrite HA. apply orb_true_r.
+  - change (amp_ok (with_amp j (i_state i) hs2 (wadd (i_paid i) (h_amt h))
+       match get_set (c_set c) (set_accept (c_set c) (h_amt h) (i_sets i)) with
+       | Some (_, a) => put_set (c_set c) (HSettled, a) (set_accept (c_set c) (h_amt h) (i_sets i))
+       | None => set_accept (c_set c) (h_amt h) (i_sets i)
+       end)).
+    apply O1. apply OK.
+Qed.
+
+Lemma trans_ok i i' : oki i -> trans i i' -> oki i'.
+Proof.
+  intros OK T. destruct (trans_hash i i' T) as [_ EA]. unfold ok in *. rewrite EA.
+  destruct T as [c h ns r NA E U A|p S A|NA S A|k hk NA S FK HK E|c addr total h NA F U A|P NA A|k h NA F HA A
+         |c addr total h pm hs NA F U A]; try rewrite NA in *.
   - eapply update_invoice_ok; eauto.
-  - unfold apply_settle_hodl in A. destruct (negb (i_hodl i)); [discriminate|].
-    destruct (negb (any_htlc _ _)); [discriminate|].
-    destruct (N.eqb_spec (H p) (i_hash i)) as [HP|]; [|discriminate]. simpl in A. inv A.
-    apply inv_ok_settle_all; auto.
-    intros k h I SA T.
-    assert (M : mppl (i_state i) h = true).
-    { unfold mppl. rewrite S. simpl. apply andb_true_iff. split; [apply is_state_iff; auto|].
-      apply negb_true_iff. apply N.eqb_neq. exact T. }
-    generalize (ok_complete H g i OK (or_introl S) k h I M). rewrite S. unfold mppl. simpl. auto.
+  - destruct (i_amp i).
+    + exfalso. destruct (ao_state H g i OK); congruence.
+    + unfold apply_settle_hodl in A. destruct (negb (i_hodl i)); [discriminate|].
+      destruct (negb (any_htlc _ _)); [discriminate|].
+      destruct (N.eqb_spec (H p) (i_hash i)) as [HP|]; [|discriminate]. simpl in A. inv A.
+      apply inv_ok_settle_all; auto.
+      intros k h I SA T.
+      assert (M : mppl (i_state i) h = true).
+      { unfold mppl. rewrite S. simpl. apply andb_true_iff. split; [apply is_state_iff; auto|].
+        apply negb_true_iff. apply N.eqb_neq. exact T. }
+      generalize (ok_complete H g i OK (or_introl S) k h I M). rewrite S. unfold mppl. simpl. auto.
   - unfold apply_cancel in A. unfold align_htlcs in A.
     destruct (any_htlc _ _); [discriminate|]. inv A.
     apply inv_ok_cancel_all; auto. destruct S; congruence.
   - subst. apply inv_ok_cancel_one; auto.
+  - destruct (amp_update_facts c i addr total h (or_introl U)) as (HH & ST & D & _).
+    unfold amp_apply_accept in A. destruct (any_htlc _ _); inv A.
+    apply amp_ok_cons; auto; subst h; reflexivity.
+  - eapply amp_cancel_invoice_ok; eauto.
+  - eapply amp_cancel_one_ok; eauto.
+  - eapply amp_settle_ok; eauto.
+Qed.
+
+Lemma state_ok_put' st i0 i' sb :
+  state_ok st -> In i0 (invs st) -> i_hash i' = i_hash i0 -> oki i' ->
+  state_ok (mkState (put_inv i' (invs st)) sb).
+Proof.
+  intros [ND OK] I E OI. split; simpl.
+  - rewrite put_inv_hashes. exact ND.
+  - intros x X. apply in_put_inv in X. destruct X as [X|[X _]]; subst; auto.
+Qed.
+
+Lemma ok_new i : oki (with_amp i COpen [] 0%N []).
+Proof.
+  unfold ok. simpl. destruct (i_amp i); constructor; simpl;
+    try (intros; contradiction); try discriminate; try (constructor; fail); auto;
+    intros [E|E]; discriminate.
 Qed.
 
 Lemma shape_ok st l' sb : state_ok st -> shape (invs st) l' -> state_ok (mkState l' sb).
 Proof.
   intros SO [E|i F E|i i' I T E]; subst.
-  - apply state_ok_subs. exact SO.
+  - destruct SO as [A B]. split; auto.
   - destruct SO as [ND OK]. split; simpl.
     + constructor; [|exact ND]. intro X. apply in_map_iff in X. destruct X as [x [E I]].
       unfold find_by_hash in F. eapply find_none in F; eauto. rewrite E, N.eqb_refl in F. discriminate.
-    + intros x [E|I]; [|auto]. subst. constructor; simpl.
-      * constructor.
-      * intros k h [].
-      * intros _ k h [].
-      * discriminate.
-      * discriminate.
-      * intros k h k' h' [].
-      * intros [E|E]; discriminate.
-  - eapply state_ok_put; eauto.
+    + intros x [E|I]; [|auto]. subst. apply ok_new.
+  - eapply state_ok_put'; eauto.
     + apply trans_hash. exact T.
     + eapply trans_ok; eauto. destruct SO as [_ OK]. auto.
 Qed.
@@ -869,26 +1295,76 @@ Proof.
   eapply S_new; eauto.
 Qed.
 
-(* a UAdd can only come out of a context whose invoice ref carries the hash *)
+(* a UAdd can only come out of a context whose invoice ref carries the hash,
+   and never on an AMP invoice *)
 Lemma uadd_ref c i h ns r :
   update_invoice H g c i = UAdd h ns r ->
   (i_amp i && c_amp c && match c_mpp c with Some _ => true | None => false end) = false ->
-  fst (ctx_ref c) = Some (c_hash c).
+  fst (ctx_ref c) = Some (c_hash c) /\ i_amp i = false.
 Proof.
   unfold update_invoice, ctx_ref. intros U G.
-  destruct (c_path c); [reflexivity|].
-  destruct (c_mpp c) as [[a t]|]; [|reflexivity].
-  destruct (c_amp c) eqn:CA; [|reflexivity]. exfalso.
-  unfold update_mpp in U. rewrite CA in U. destruct (i_amp i); simpl in *; discriminate.
+  destruct (c_mpp c) as [[a t]|].
+  - unfold update_mpp in U. destruct (i_amp i) eqn:IA; destruct (c_amp c) eqn:CA; simpl in *;
+      try discriminate; destruct (c_path c); auto.
+  - destruct (c_amp c) eqn:CA; [discriminate|]. destruct (c_path c).
+    + unfold update_mpp in U. rewrite CA in U. destruct (i_amp i); simpl in *; [discriminate|auto].
+    + unfold update_legacy in U. destruct (i_amp i); [discriminate|auto].
+Qed.
+
+Lemma notify_amp_shape st c i addr total st' o :
+  In i (invs st) -> i_amp i = true ->
+  notify_amp H R g st c i addr total = (st', o) -> shape (invs st) (invs st').
+Proof.
+  intros II IA. unfold notify_amp.
+  destruct (find_htlc (c_key c) (i_htlcs i)) as [h0|] eqn:F.
+  - destruct (h_state h0).
+    + intro X; inv X. apply S_same; reflexivity.
+    + intro X; inv X. apply S_same; reflexivity.
+    + destruct (h_pre h0); [|intro X; inv X; apply S_same; reflexivity].
+      destruct (_ && _); [|intro X; inv X; apply S_same; reflexivity].
+      destruct (deliver _ _). intro X; inv X. apply S_same; reflexivity.
+  - destruct (amp_update R g c i addr total) as [oc|h|h|h|h pm] eqn:U.
+    + destruct (deliver _ _). intro X; inv X. apply S_same; reflexivity.
+    + destruct (g_kv g).
+      * destruct (amp_apply_accept i (c_key c) h (c_set c)) as [i'|] eqn:A;
+          [|intro X; inv X; apply S_same; reflexivity].
+        destruct (dup_set st i (c_set c)); intro X; inv X; [apply S_same; reflexivity|].
+        simpl. eapply S_put; eauto. eapply TA_accept; eauto.
+      * destruct (dup_set st i (c_set c)); [intro X; inv X; apply S_same; reflexivity|].
+        destruct (amp_apply_accept i (c_key c) h (c_set c)) as [i'|] eqn:A;
+          intro X; inv X; [|apply S_same; reflexivity].
+        simpl. eapply S_put; eauto. eapply TA_accept; eauto.
+    + destruct (g_kv g); [|destruct (dup_set st i (c_set c))]; intro X; inv X; apply S_same; reflexivity.
+    + destruct (amp_cancel_invoice i (in_set (c_set c))) as [i'|] eqn:A;
+        [|intro X; inv X; apply S_same; reflexivity].
+      destruct (deliver _ _). intro X; inv X. simpl. eapply S_put; eauto. eapply TA_cancel; eauto.
+    + destruct (find_pre (c_key c) pm); [|intro X; inv X; apply S_same; reflexivity].
+      destruct (g_kv g) eqn:KV.
+      * destruct (amp_apply_settle H true i (c_key c) h (c_set c) pm) as [[i' hs]|] eqn:A;
+          [|intro X; inv X; apply S_same; reflexivity].
+        destruct (dup_set st i (c_set c)); [intro X; inv X; apply S_same; reflexivity|].
+        simpl. destruct (deliver _ _). intro X; inv X. simpl.
+        eapply S_put; eauto. eapply TA_settle; eauto. rewrite KV. eauto.
+      * destruct (dup_set st i (c_set c)); [intro X; inv X; apply S_same; reflexivity|].
+        destruct (amp_apply_settle H false i (c_key c) h (c_set c) pm) as [[i' hs]|] eqn:A;
+          [|intro X; inv X; apply S_same; reflexivity].
+        simpl. destruct (deliver _ _). intro X; inv X. simpl.
+        eapply S_put; eauto. eapply TA_settle; eauto. rewrite KV. eauto.
 Qed.
 
 Lemma notify_locked_shape st c st' o :
-  notify_locked H g st c = (st', o) -> shape (invs st) (invs st').
+  notify_locked H R g st c = (st', o) -> shape (invs st) (invs st').
 Proof.
   unfold notify_locked. destruct (ctx_ref c) as [rh ra] eqn:CR.
   destruct (lookup_ref (g_kv g) (invs st) rh ra) as [i|] eqn:L;
     [|unfold fail_now; intro X; inv X; apply S_same; reflexivity].
-  destruct (i_amp i && c_amp c && _) eqn:G; [intro X; inv X; apply S_same; reflexivity|].
+  assert (II : In i (invs st)) by (eapply lookup_ref_in; eauto).
+  destruct (i_amp i && match find_htlc (c_key c) (i_htlcs i) with Some h => _ | None => false end);
+    [intro X; inv X; apply S_same; reflexivity|].
+  destruct (i_amp i && c_amp c && match c_mpp c with Some _ => true | None => false end) eqn:G.
+  { destruct (c_mpp c) as [[a t]|]; [|intro X; inv X; apply S_same; reflexivity].
+    apply notify_amp_shape; auto.
+    apply andb_true_iff in G. destruct G as [G _]. apply andb_true_iff in G. tauto. }
   match goal with
   | |- (match ?u with Some _ => _ | None => _ end) = _ -> _ => destruct u as [[[i' r] ch]|] eqn:U
   end; [|intro X; inv X; apply S_same; reflexivity].
@@ -899,11 +1375,9 @@ Proof.
     - destruct (update_invoice H g c i) as [oc|h ns r0|] eqn:UI; try discriminate.
       + inv U. apply S_same; reflexivity.
       + destruct (apply_add H i rh (c_key c) h ns) as [i2|] eqn:A; [|discriminate]. inv U.
-        assert (RH : rh = Some (c_hash c)).
-        { generalize (uadd_ref c i h ns r0 UI G). rewrite CR. simpl. auto. }
+        destruct (uadd_ref c i h ns r0 UI G) as [RH NA]. rewrite CR in RH. simpl in RH.
         subst rh. eapply S_put; eauto.
-        * eapply lookup_ref_in; eauto.
-        * eapply T_add; eauto. eapply lookup_ref_hash; eauto. }
+        eapply T_add; eauto. eapply lookup_ref_hash; eauto. }
   destruct r as [[k p ah oc|k ah oc]|].
   - destruct (deliver _ _) as [sb out]. intro X; inv X. exact SH.
   - destruct (deliver _ _) as [sb out]. intro X; inv X. exact SH.
@@ -912,22 +1386,39 @@ Qed.
 
 Definition shape2 (l l' : list invoice) : Prop := exists l1, shape l l1 /\ shape l1 l'.
 
-Lemma step_shape st e st' o : step H g st e = (st', o) -> shape2 (invs st) (invs st').
+Lemma jit_shape st i : shape (invs st) (invs (fst (add_invoice g st i))).
+Proof. destruct (add_invoice g st i) as [s2 a2] eqn:AI. simpl. eapply add_invoice_shape; eauto. Qed.
+
+Lemma process_keysend_shape st c st1 :
+  process_keysend H g st c = Some st1 -> shape (invs st) (invs st1).
 Proof.
-  destruct e as [i|c|p|h f|h a k]; simpl.
+  unfold process_keysend. destruct (c_ks c); try discriminate.
+  - intro X; inv X. apply S_same; reflexivity.
+  - destruct (negb _); [discriminate|]. destruct (c_mpp c); [discriminate|].
+    destruct (Z.ltb _ _); [discriminate|]. intro X; inv X. apply jit_shape.
+Qed.
+
+Lemma process_amp_shape st c st1 :
+  process_amp g st c = Some st1 -> shape (invs st) (invs st1).
+Proof.
+  unfold process_amp. destruct (c_mpp c) as [[a t]|]; [|discriminate].
+  destruct (Z.ltb _ _); [discriminate|]. intro X; inv X. apply jit_shape.
+Qed.
+
+Lemma step_shape st e st' o : step H R g st e = (st', o) -> shape2 (invs st) (invs st').
+Proof.
+  destruct e as [i|c|p|h f|h a k|sid k]; simpl.
   - destruct (add_invoice g st i) as [s1 a] eqn:A. intro X; inv X.
     exists (invs st). split; [apply S_same; reflexivity|]. eapply add_invoice_shape; eauto.
-  - unfold notify. destruct (g_keysend g && negb (c_amp c)).
-    + destruct (process_keysend H g st c) as [st1|] eqn:PK.
-      * intro NL. exists (invs st1). split; [|eapply notify_locked_shape; eauto].
-        unfold process_keysend in PK. destruct (c_ks c); try discriminate.
-        -- inv PK. apply S_same; reflexivity.
-        -- destruct (negb _); [discriminate|]. destruct (c_mpp c); [discriminate|].
-           destruct (Z.ltb _ _); [discriminate|]. inv PK.
-           match goal with |- shape _ (invs (fst ?x)) => destruct x as [s2 a2] eqn:AI end.
-           simpl. eapply add_invoice_shape; eauto.
+  - unfold notify. destruct (g_amp g && c_amp c).
+    + destruct (process_amp g st c) as [st1|] eqn:PK.
+      * intro NL. exists (invs st1). split; [eapply process_amp_shape; eauto|eapply notify_locked_shape; eauto].
       * unfold fail_now. intro X; inv X. exists (invs st'). split; apply S_same; reflexivity.
-    + intro NL. exists (invs st). split; [apply S_same; reflexivity|eapply notify_locked_shape; eauto].
+    + destruct (g_keysend g && negb (c_amp c)).
+      * destruct (process_keysend H g st c) as [st1|] eqn:PK.
+        -- intro NL. exists (invs st1). split; [eapply process_keysend_shape; eauto|eapply notify_locked_shape; eauto].
+        -- unfold fail_now. intro X; inv X. exists (invs st'). split; apply S_same; reflexivity.
+      * intro NL. exists (invs st). split; [apply S_same; reflexivity|eapply notify_locked_shape; eauto].
   - unfold settle_hodl. exists (invs st). split; [apply S_same; reflexivity|].
     destruct (lookup_ref _ _ _ _) as [i|] eqn:L; [|inv H0; apply S_same; reflexivity].
     destruct (i_state i) eqn:S; try (inv H0; apply S_same; reflexivity).
@@ -936,14 +1427,16 @@ Proof.
     eapply S_put; eauto. eapply lookup_ref_in; eauto. eapply T_settle; eauto.
   - unfold cancel_invoice. exists (invs st). split; [apply S_same; reflexivity|].
     destruct (lookup_ref _ _ _ _) as [i|] eqn:L; [|inv H0; apply S_same; reflexivity].
+    assert (II : In i (invs st)) by (eapply lookup_ref_in; eauto).
+    assert (C : forall i', (if i_amp i then amp_cancel_invoice i (fun _ => true) else apply_cancel i) = Some i' ->
+                           i_state i = COpen \/ i_state i = CAccepted -> trans i i').
+    { intros i' A S. destruct (i_amp i) eqn:IA; [eapply TA_cancel; eauto|eapply T_cancel; eauto]. }
     destruct (i_state i) eqn:S; try (inv H0; apply S_same; reflexivity).
-    + simpl in H0. destruct (apply_cancel i) as [i'|] eqn:A; [|inv H0; apply S_same; reflexivity].
-      destruct (deliver _ _) as [sb out]. inv H0. simpl.
-      eapply S_put; eauto. eapply lookup_ref_in; eauto. eapply T_cancel; eauto.
+    + simpl in H0. destruct (if i_amp i then _ else _) as [i'|] eqn:A; [|inv H0; apply S_same; reflexivity].
+      destruct (deliver _ _) as [sb out]. inv H0. simpl. eapply S_put; eauto.
     + destruct (cstate_eqb CAccepted CAccepted && negb f); [inv H0; apply S_same; reflexivity|].
-      destruct (apply_cancel i) as [i'|] eqn:A; [|inv H0; apply S_same; reflexivity].
-      destruct (deliver _ _) as [sb out]. inv H0. simpl.
-      eapply S_put; eauto. eapply lookup_ref_in; eauto. eapply T_cancel; eauto.
+      destruct (if i_amp i then _ else _) as [i'|] eqn:A; [|inv H0; apply S_same; reflexivity].
+      destruct (deliver _ _) as [sb out]. inv H0. simpl. eapply S_put; eauto.
   - unfold timeout_htlc. exists (invs st). split; [apply S_same; reflexivity|].
     destruct (lookup_ref _ _ _ _) as [i|] eqn:L; [|inv H0; apply S_same; reflexivity].
     destruct (negb (cstate_eqb (i_state i) COpen)) eqn:S; [inv H0; apply S_same; reflexivity|].
@@ -951,11 +1444,27 @@ Proof.
     destruct (find_htlc k (i_htlcs i)) as [h0|] eqn:FK; [|inv H0; apply S_same; reflexivity].
     destruct (negb (is_state HAccepted h0)) eqn:IA; [inv H0; apply S_same; reflexivity|].
     apply negb_false_iff in IA. apply is_state_iff in IA.
+    destruct (i_amp i) eqn:AM.
+    + destruct (amp_cancel_one i k h0) as [i'|] eqn:A; [|inv H0; apply S_same; reflexivity].
+      destruct (deliver _ _) as [sb out]. inv H0. simpl.
+      eapply S_put; eauto. eapply lookup_ref_in; eauto. eapply TA_one; eauto.
+    + destruct (deliver _ _) as [sb out]. inv H0. simpl.
+      eapply S_put; eauto. eapply lookup_ref_in; eauto. eapply T_timeout; eauto.
+  - unfold timeout_set. exists (invs st). split; [apply S_same; reflexivity|].
+    destruct (find _ (invs st)) as [i|] eqn:L; [|inv H0; apply S_same; reflexivity].
+    apply find_some in L. destruct L as [II AH].
+    destruct (negb (cstate_eqb (i_state i) COpen)) eqn:S; [inv H0; apply S_same; reflexivity|].
+    destruct (find_htlc k (i_htlcs i)) as [h0|] eqn:FK; [|inv H0; apply S_same; reflexivity].
+    destruct (negb (in_set sid h0)); [inv H0; apply S_same; reflexivity|].
+    destruct (negb (is_state HAccepted h0)) eqn:IA; [inv H0; apply S_same; reflexivity|].
+    apply negb_false_iff in IA. apply is_state_iff in IA.
+    destruct (amp_cancel_one i k h0) as [i'|] eqn:A; [|inv H0; apply S_same; reflexivity].
     destruct (deliver _ _) as [sb out]. inv H0. simpl.
-    eapply S_put; eauto. eapply lookup_ref_in; eauto. eapply T_timeout; eauto.
+    apply andb_true_iff in AH. destruct AH as [AM _].
+    eapply S_put; eauto. eapply TA_one; eauto.
 Qed.
 
-Theorem step_ok st e st' o : state_ok st -> step H g st e = (st', o) -> state_ok st'.
+Theorem step_ok st e st' o : state_ok st -> step H R g st e = (st', o) -> state_ok st'.
 Proof.
   intros SO ST. apply step_shape in ST. destruct ST as [l1 [S1 S2]].
   assert (O1 : state_ok (mkState l1 [])) by (eapply shape_ok; eauto).
@@ -967,12 +1476,12 @@ Lemma init_ok : state_ok init.
 Proof. split; simpl; [constructor|intros i []]. Qed.
 
 Theorem run_ok st evs st' outs :
-  state_ok st -> run H g st evs = (st', outs) -> state_ok st'.
+  state_ok st -> run H R g st evs = (st', outs) -> state_ok st'.
 Proof.
-  revert st st' outs. induction evs as [|e r IH]; simpl; intros st st' outs SO R.
-  - inv R. exact SO.
-  - destruct (step H g st e) as [st1 o] eqn:S. destruct (run H g st1 r) as [st2 os] eqn:R2.
-    inv R. eapply IH; [|eauto]. eapply step_ok; eauto.
+  revert st st' outs. induction evs as [|e r IH]; simpl; intros st st' outs SO RR.
+  - inv RR. exact SO.
+  - destruct (step H R g st e) as [st1 o] eqn:S. destruct (run H R g st1 r) as [st2 os] eqn:R2.
+    inv RR. eapply IH; [|eauto]. eapply step_ok; eauto.
 Qed.
 
 End Shape.
@@ -985,25 +1494,30 @@ Definition cstate_le (a b : cstate) : Prop :=
   a = b \/ a = COpen \/ (a = CAccepted /\ (b = CSettled \/ b = CCanceled)).
 Definition same_rec (h h' : htlc) : Prop :=
   h_amt h = h_amt h' /\ h_total h = h_total h' /\ h_expiry h = h_expiry h' /\
-  h_height h = h_height h' /\ h_hash h = h_hash h'.
-Definition inv_le (i i' : invoice) : Prop :=
+  h_height h = h_height h' /\ h_hash h = h_hash h' /\ h_set h = h_set h'.
+(* kv = the registry runs on the channeldb KV store: there the records of an
+   AMP invoice are NOT guaranteed to persist (finding C15-F2, see
+   amp_kv_reuse_refuted); everything else is. *)
+Definition inv_le (kv : bool) (i i' : invoice) : Prop :=
   i_hash i' = i_hash i /\ i_value i' = i_value i /\ i_addr i' = i_addr i /\
+  i_amp i' = i_amp i /\
   cstate_le (i_state i) (i_state i') /\
   (forall p, i_state i = CSettled -> i_pre i = Some p -> i_pre i' = Some p) /\
-  forall k h, In (k, h) (i_htlcs i) ->
-              exists h', In (k, h') (i_htlcs i') /\ hstate_le (h_state h) (h_state h') /\ same_rec h h'.
-Definition state_le (l l' : list invoice) : Prop :=
-  forall i, In i l -> exists i', In i' l' /\ inv_le i i'.
+  (i_amp i = false \/ kv = false ->
+   forall k h, In (k, h) (i_htlcs i) ->
+               exists h', In (k, h') (i_htlcs i') /\ hstate_le (h_state h) (h_state h') /\ same_rec h h').
+Definition state_le (kv : bool) (l l' : list invoice) : Prop :=
+  forall i, In i l -> exists i', In i' l' /\ inv_le kv i i'.
 
 Lemma same_rec_refl h : same_rec h h.
 Proof. unfold same_rec. tauto. Qed.
 Lemma same_rec_set h s : same_rec h (set_hstate h s).
 Proof. unfold same_rec. simpl. tauto. Qed.
 
-Lemma inv_le_refl i : inv_le i i.
+Lemma inv_le_refl kv i : inv_le kv i i.
 Proof.
   unfold inv_le. repeat split; auto. left; reflexivity.
-  intros k h I. exists h. split; [auto|]. split; [left; reflexivity|apply same_rec_refl].
+  intros _ k h I. exists h. split; [auto|]. split; [left; reflexivity|apply same_rec_refl].
 Qed.
 
 Lemma hstate_le_trans a b c : hstate_le a b -> hstate_le b c -> hstate_le a c.
@@ -1021,21 +1535,23 @@ Qed.
 Lemma cstate_le_settled b : cstate_le CSettled b -> b = CSettled.
 Proof. unfold cstate_le. intros [X|[X|[X _]]]; congruence. Qed.
 
-Lemma inv_le_trans a b c : inv_le a b -> inv_le b c -> inv_le a c.
+Lemma inv_le_trans kv a b c : inv_le kv a b -> inv_le kv b c -> inv_le kv a c.
 Proof.
-  intros (A1 & A2 & A3 & A4 & A5 & A6) (B1 & B2 & B3 & B4 & B5 & B6).
+  intros (A1 & A2 & A3 & A4 & A5 & A6 & A7) (B1 & B2 & B3 & B4 & B5 & B6 & B7).
   unfold inv_le. repeat split; try congruence.
   - eapply cstate_le_trans; eauto.
-  - intros p S P. apply B5; auto. rewrite S in A4. apply cstate_le_settled in A4. auto.
-  - intros k h I. destruct (A6 k h I) as [h1 [I1 [L1 R1]]]. destruct (B6 k h1 I1) as [h2 [I2 [L2 R2]]].
+  - intros p S P. apply B6; auto. rewrite S in A5. apply cstate_le_settled in A5. auto.
+  - intros G k h I. destruct (A7 G k h I) as [h1 [I1 [L1 R1]]].
+    assert (G' : i_amp b = false \/ kv = false) by (destruct G; [left; congruence|right; auto]).
+    destruct (B7 G' k h1 I1) as [h2 [I2 [L2 R2]]].
     exists h2. split; [auto|]. split; [eapply hstate_le_trans; eauto|].
     unfold same_rec in *. intuition congruence.
 Qed.
 
-Lemma state_le_refl l : state_le l l.
+Lemma state_le_refl kv l : state_le kv l l.
 Proof. intros i I. exists i. split; [auto|apply inv_le_refl]. Qed.
 
-Lemma state_le_trans a b c : state_le a b -> state_le b c -> state_le a c.
+Lemma state_le_trans kv a b c : state_le kv a b -> state_le kv b c -> state_le kv a c.
 Proof.
   intros X Y i I. destruct (X i I) as [i1 [I1 L1]]. destruct (Y i1 I1) as [i2 [I2 L2]].
   exists i2. split; [auto|eapply inv_le_trans; eauto].
@@ -1043,6 +1559,7 @@ Qed.
 
 Section Mono.
 Variable H : N -> N.
+Variable R : list (N * N) -> list (N * N).
 Variable g : cfg.
 
 Lemma align_le s l l' :
@@ -1067,9 +1584,12 @@ Proof.
   - destruct (any_htlc _ _); inv A. exact ID.
 Qed.
 
-Lemma trans_le i i' : inv_ok H g i -> trans H g i i' -> inv_le i i'.
+Lemma trans_le i i' : ok H g i -> trans H R g i i' -> inv_le (g_kv g) i i'.
 Proof.
-  intros OK [c h ns r E U A|p S A|S A|k hk S FK HK E].
+  intros OK T. destruct (trans_hash H R g i i' T) as [EH EA].
+  unfold ok in OK.
+  destruct T as [c h ns r NA E U A|p S A|NA S A|k hk NA S FK HK E|c addr total h NA F U A|P NA A|k h NA F HA A
+         |c addr total h pm hs NA F U A]; try rewrite NA in OK.
   - unfold apply_add in A. destruct (find_htlc _ _); [discriminate|].
     destruct (match ns with Some _ => _ | None => _ end) as [s1|] eqn:S1; [|discriminate].
     destruct (align_htlcs s1 _) as [hs2|] eqn:AL; [|discriminate]. inv A.
@@ -1079,57 +1599,92 @@ Proof.
       destruct n; simpl in S1; try discriminate; auto.
       * destruct (i_pre i); [|discriminate]. destruct (N.eqb _ _); inv S1. auto.
       * inv S1. auto.
-    + intros k0 h0 I. eapply align_le; eauto. right. exact I.
+    + intros _ k0 h0 I. eapply align_le; eauto. right. exact I.
   - unfold apply_settle_hodl in A. destruct (negb (i_hodl i)); [discriminate|].
     destruct (negb _); [discriminate|]. destruct (negb _); [discriminate|]. inv A.
     unfold inv_le. simpl. repeat split; auto.
     + unfold cstate_le. rewrite S. auto.
     + intros. congruence.
-    + intros k0 h0 I. eapply (align_le CSettled); eauto. reflexivity.
+    + intros _ k0 h0 I. eapply (align_le CSettled); eauto. reflexivity.
   - unfold apply_cancel in A. destruct (align_htlcs _ _) eqn:AL; [|discriminate]. inv A.
     unfold inv_le. simpl. repeat split; auto.
     + unfold cstate_le. destruct S as [S|S]; rewrite S; auto.
-    + intros k0 h0 I. eapply align_le; eauto.
+    + intros _ k0 h0 I. eapply align_le; eauto.
   - subst. unfold inv_le. simpl. repeat split; auto.
     + left; reflexivity.
-    + intros k0 h0 I. exists (if N.eqb k0 k then set_hstate h0 HCanceled else h0).
+    + intros _ k0 h0 I. exists (if N.eqb k0 k then set_hstate h0 HCanceled else h0).
       split; [apply in_set_htlc_state; eauto|].
       destruct (N.eqb_spec k0 k); [|split; [left; reflexivity|apply same_rec_refl]].
       split; [|apply same_rec_set]. subst k0.
       assert (h0 = hk).
       { apply (in_find_htlc k (i_htlcs i) h0 (ok_nodup H g i OK)) in I. congruence. }
       subst. right. exact HK.
+  - unfold amp_apply_accept in A. destruct (any_htlc _ _); inv A.
+    unfold inv_le. simpl. repeat split; auto. left; reflexivity.
+    intros _ k0 h0 I. exists h0. split; [right; auto|]. split; [left; reflexivity|apply same_rec_refl].
+  - unfold amp_cancel_invoice in A. destruct (any_htlc _ _); [discriminate|].
+    destruct (amp_cancel_fold _ _ _) as [[paid sets]|]; inv A.
+    unfold inv_le. simpl. repeat split; auto.
+    + unfold cstate_le. destruct (ao_state H g i OK) as [S|S]; rewrite S; auto.
+    + intros _ k0 h0 I. exists (cancel_sel P h0). split; [apply in_map_htlcs; eauto|].
+      unfold cancel_sel. destruct (P h0 && is_state HAccepted h0) eqn:C.
+      * apply andb_true_iff in C. destruct C as [_ C]. apply is_state_iff in C.
+        split; [right; auto|apply same_rec_set].
+      * split; [left; reflexivity|apply same_rec_refl].
+  - unfold amp_cancel_one in A. destruct (amp_cancel_acct _ _) as [[paid sets]|]; inv A.
+    unfold inv_le. simpl. repeat split; auto. left; reflexivity.
+    intros _ k0 h0 I. exists (if N.eqb k0 k then set_hstate h0 HCanceled else h0).
+    split; [apply in_set_htlc_state; eauto|].
+    destruct (N.eqb_spec k0 k); [|split; [left; reflexivity|apply same_rec_refl]].
+    split; [|apply same_rec_set]. subst k0.
+    assert (h0 = h).
+    { apply (in_find_htlc k (i_htlcs i) h0 (ao_nodup H g i OK)) in I. congruence. }
+    subst. right. exact HA.
+  - unfold amp_apply_settle in A. destruct (i_pre i); [discriminate|].
+    destruct (amp_settle_htlcs _ _ _ _ _) as [hs2|] eqn:SE; [|discriminate].
+    destruct (amp_settle_spec H _ _ _ _ _ SE) as (K & B & FW & W).
+    assert (SH : exists hs3 paid sets, i' = with_amp i (i_state i) hs3 paid sets /\
+                                       (g_kv g = false -> hs3 = hs2)).
+    { injection A as EI _. subst i'. eexists. eexists. eexists. split; [reflexivity|].
+      intro G. rewrite G. reflexivity. }
+    destruct SH as (hs3 & paid & sets & EI & HK). subst i'.
+    unfold inv_le. simpl. repeat split; auto. left; reflexivity.
+    intros [G|G]; [congruence|]. rewrite (HK G).
+    intros k0 h0 I. destruct (FW k0 h0 (or_intror I)) as [h' [I' S']]. exists h'. split; [auto|].
+    destruct S' as [[_ X]|[_ [A0 [p [X _]]]]]; subst.
+    + split; [left; reflexivity|apply same_rec_refl].
+    + split; [right; auto|]. unfold same_rec. simpl. tauto.
 Qed.
 
 Lemma shape_le l l' :
-  NoDup (map i_hash l) -> (forall i, In i l -> inv_ok H g i) -> shape H g l l' -> state_le l l'.
+  NoDup (map i_hash l) -> (forall i, In i l -> ok H g i) -> shape H R g l l' -> state_le (g_kv g) l l'.
 Proof.
   intros ND OK [E|i F E|i i' I T E]; subst.
   - apply state_le_refl.
   - intros x X. exists x. split; [right; auto|apply inv_le_refl].
   - intros x X. destruct (N.eqb_spec (i_hash x) (i_hash i')) as [EQ|NE].
     + assert (x = i).
-      { eapply nodup_hash_eq; eauto. rewrite EQ. apply trans_hash in T. exact T. }
+      { eapply nodup_hash_eq; eauto. rewrite EQ. apply trans_hash in T. apply T. }
       subst x. exists i'. split; [eapply put_inv_in; eauto|apply trans_le; auto].
     + exists x. split; [apply put_inv_other; auto|apply inv_le_refl].
 Qed.
 
 Theorem step_le st e st' o :
-  state_ok H g st -> step H g st e = (st', o) -> state_le (invs st) (invs st').
+  state_ok H g st -> step H R g st e = (st', o) -> state_le (g_kv g) (invs st) (invs st').
 Proof.
-  intros SO ST. generalize (step_shape H g st e st' o ST). intros [l1 [S1 S2]].
+  intros SO ST. generalize (step_shape H R g st e st' o ST). intros [l1 [S1 S2]].
   assert (O1 : state_ok H g (mkState l1 [])) by (eapply shape_ok; eauto).
   destruct SO as [ND OK]. destruct O1 as [ND1 OK1]. simpl in *.
   eapply state_le_trans; eapply shape_le; eauto.
 Qed.
 
 Theorem run_le st evs st' outs :
-  state_ok H g st -> run H g st evs = (st', outs) -> state_le (invs st) (invs st').
+  state_ok H g st -> run H R g st evs = (st', outs) -> state_le (g_kv g) (invs st) (invs st').
 Proof.
-  revert st st' outs. induction evs as [|e r IH]; simpl; intros st st' outs SO R.
-  - inv R. apply state_le_refl.
-  - destruct (step H g st e) as [st1 o] eqn:S. destruct (run H g st1 r) as [st2 os] eqn:R2.
-    inv R. eapply state_le_trans; [eapply step_le; eauto|].
+  revert st st' outs. induction evs as [|e r IH]; simpl; intros st st' outs SO RR.
+  - inv RR. apply state_le_refl.
+  - destruct (step H R g st e) as [st1 o] eqn:S. destruct (run H R g st1 r) as [st2 os] eqn:R2.
+    inv RR. eapply state_le_trans; [eapply step_le; eauto|].
     eapply IH; [|eauto]. eapply step_ok; eauto.
 Qed.
 
@@ -1140,6 +1695,7 @@ End Mono.
 
 Section Outs.
 Variable H : N -> N.
+Variable R : list (N * N) -> list (N * N).
 Variable g : cfg.
 
 Definition res_settle (r : resn) : list (N * N) :=
@@ -1148,8 +1704,16 @@ Definition res_settle (r : resn) : list (N * N) :=
 Definition settle_outs (o : reply * list resn) : list (N * N) :=
   match fst o with RpDirect (DRes r) => res_settle r | _ => [] end ++ flat_map res_settle (snd o).
 
+(* htlc k is recorded settled with preimage p: the invoice's preimage, or --
+   AMP -- the htlc's own reconstructed preimage *)
 Definition settled_in (l : list invoice) (k p : N) : Prop :=
-  exists i h, In i l /\ In (k, h) (i_htlcs i) /\ h_state h = HSettled /\ i_pre i = Some p.
+  exists i h, In i l /\ In (k, h) (i_htlcs i) /\ h_state h = HSettled /\
+              (if i_amp i then h_pre h = Some p else i_pre i = Some p).
+
+(* ... in the state after the step, or (KV store rewriting a settled AMP set,
+   finding C15-F2) in the state before it *)
+Definition settled_around (st st' : state) (k p : N) : Prop :=
+  settled_in (invs st') k p \/ (g_kv g = true /\ settled_in (invs st) k p).
 
 Ltac break_in U :=
   repeat match type of U with
@@ -1187,6 +1751,20 @@ Proof.
   apply is_state_iff in S. eauto.
 Qed.
 
+Lemma ntf_amp_settled sid p oc l sb sb' out k0 p0 :
+  deliver sb (amp_settle_ntf sid p oc l) = (sb', out) ->
+  In (k0, p0) (flat_map res_settle out) ->
+  exists h, In (k0, h) l /\ h_state h = HSettled /\ in_set sid h = true /\
+            p0 = match h_pre h with Some q => q | None => p end.
+Proof.
+  intros D I. apply in_flat_map in I. destruct I as [r [IR IS]].
+  eapply deliver_in in IR; eauto. unfold amp_settle_ntf in IR.
+  apply in_map_iff in IR. destruct IR as [[k1 h1] [E I1]].
+  subst r. simpl in IS. destruct IS as [X|[]]. inv X.
+  apply filter_In in I1. destruct I1 as [I1 S]. simpl in S.
+  apply andb_true_iff in S. destruct S as [S1 S2]. apply is_state_iff in S2. eauto.
+Qed.
+
 Lemma ntf_fail_nosettle (f : N * htlc -> resn) l sb sb' out x :
   (forall kh, res_settle (f kh) = []) ->
   deliver sb (map f l) = (sb', out) -> In x (flat_map res_settle out) -> False.
@@ -1196,23 +1774,134 @@ Proof.
   subst r. rewrite F in IS. destruct IS.
 Qed.
 
+Lemma settled_here l k p : settled_in l k p -> forall st st', invs st' = l -> settled_around st st' k p.
+Proof. intros X st st' E. left. rewrite E. exact X. Qed.
+
+Lemma notify_amp_settles st c i addr total st' o k p :
+  state_ok H g st -> In i (invs st) -> i_amp i = true ->
+  notify_amp H R g st c i addr total = (st', o) ->
+  In (k, p) (settle_outs o) -> settled_around st st' k p.
+Proof.
+  intros SO II IA. assert (OK : amp_ok H g i) by (apply ok_amp; [auto|apply SO; auto]).
+  unfold notify_amp.
+  destruct (find_htlc (c_key c) (i_htlcs i)) as [h0|] eqn:F.
+  - destruct (h_state h0) eqn:HS0.
+    + intro X; inv X. simpl. tauto.
+    + intro X; inv X. simpl. tauto.
+    + destruct (h_pre h0) as [p0|] eqn:P0; [|intro X; inv X; simpl; tauto].
+      destruct (_ && _); [|intro X; inv X; simpl; tauto].
+      destruct (deliver _ _) as [sb out] eqn:D. intro X; inv X. unfold settle_outs. simpl.
+      intros [E|I]; left; simpl.
+      * inv E. exists i, h0. rewrite IA. repeat split; auto. apply find_htlc_in; auto.
+      * destruct (ntf_amp_settled _ _ _ _ _ _ _ _ _ D I) as [h1 [I1 [S1 [_ E1]]]].
+        destruct (ao_pre H g i OK _ _ I1 S1) as [q [Q _]]. rewrite Q in E1. subst p.
+        exists i, h1. rewrite IA. auto.
+  - destruct (amp_update R g c i addr total) as [oc|h|h|h|h pm] eqn:U.
+    + destruct (deliver _ _) as [sb out] eqn:D. intro X; inv X. unfold settle_outs. simpl.
+      intro I. exfalso. destruct (is_set_failure oc).
+      * unfold amp_fail_ntf in D. eapply ntf_fail_nosettle; [|exact D|exact I]. reflexivity.
+      * simpl in D. inv D. destruct I.
+    + destruct (g_kv g); [destruct (amp_apply_accept _ _ _ _)|];
+        destruct (dup_set st i (c_set c)); try destruct (amp_apply_accept _ _ _ _);
+        intro X; inv X; simpl; tauto.
+    + destruct (g_kv g); [|destruct (dup_set st i (c_set c))]; intro X; inv X; simpl; tauto.
+    + destruct (amp_cancel_invoice i (in_set (c_set c))) as [i'|]; [|intro X; inv X; simpl; tauto].
+      destruct (deliver _ _) as [sb out] eqn:D. intro X; inv X. unfold settle_outs. simpl.
+      intro I. exfalso. unfold amp_fail_ntf in D. eapply ntf_fail_nosettle; [|exact D|exact I]. reflexivity.
+    + destruct (find_pre (c_key c) pm) as [p1|] eqn:FP; [|intro X; inv X; simpl; tauto].
+      assert (MAIN : forall i' hs sb out,
+                amp_apply_settle H (g_kv g) i (c_key c) h (c_set c) pm = Some (i', hs) ->
+                deliver (subs st) (amp_settle_ntf (c_set c) p1 S_Settled hs) = (sb, out) ->
+                In (k, p) ((c_key c, p1) :: flat_map res_settle out) ->
+                settled_around st (mkState (put_inv i' (invs st)) sb) k p).
+      { intros i' hs sb out A D I.
+        assert (T : trans H R g i i') by (eapply TA_settle; eauto).
+        destruct (trans_hash H R g i i' T) as [EH EA].
+        assert (OK' : amp_ok H g i').
+        { apply ok_amp; [congruence|]. eapply trans_ok; eauto. apply SO; auto. }
+        assert (IN' : In i' (put_inv i' (invs st))) by (eapply put_inv_in; eauto).
+        destruct (amp_update_facts R g c i addr total h (or_intror (ex_intro _ pm U))) as (HH & _).
+        unfold amp_apply_settle in A. destruct (i_pre i); [discriminate|].
+        destruct (amp_settle_htlcs H (c_set c) (c_key c) pm ((c_key c, h) :: i_htlcs i)) as [hs2|] eqn:SE;
+          [|discriminate].
+        destruct (amp_settle_spec H _ _ _ _ _ SE) as (K & B & FW & W).
+        assert (ND1 : NoDup (map fst ((c_key c, h) :: i_htlcs i))).
+        { simpl. constructor; [apply find_htlc_none; auto|apply OK]. }
+        (* newly settled records are persisted on either store *)
+        assert (KEPT : forall k0 h0 x, In (k0, h0) ((c_key c, h) :: i_htlcs i) -> h_state h0 = HAccepted ->
+                                       In (k0, x) hs2 -> In (k0, x) (i_htlcs i')).
+        { intros k0 h0 x J0 A0 IX. injection A as EI _. subst i'. simpl.
+          destruct (g_kv g && _); [|exact IX]. apply filter_In. split; [exact IX|].
+          cbn [fst snd].
+          change (if (k0 =? c_key c)%N then Some h else find_htlc k0 (i_htlcs i))
+            with (find_htlc k0 ((c_key c, h) :: i_htlcs i)).
+          rewrite (in_find_htlc _ _ _ ND1 J0). apply is_state_iff in A0. rewrite A0. apply orb_true_r. }
+        assert (HS2 : hs = hs2) by (injection A as _ E2; auto). subst hs.
+        assert (REC : forall k0 x, In (k0, x) hs2 -> h_state x = HSettled ->
+                      (In (k0, x) (i_htlcs i') \/
+                       (In (k0, x) (i_htlcs i) /\
+                        (g_kv g = true \/ In (k0, x) (i_htlcs i'))))).
+        { intros k0 x IX SX. destruct (B _ _ IX) as [h0 [J0 T0]].
+          destruct T0 as [[C X]|[_ [A0 _]]].
+          - subst x. right. destruct J0 as [J0|J0]; [inversion J0; subst k0 h0; rewrite HH in SX; simpl in SX; discriminate|].
+            split; [exact J0|]. injection A as EI. subst i'. simpl.
+            destruct (g_kv g); [left; reflexivity|right; exact IX].
+          - left. eapply KEPT; eauto. }
+        destruct I as [E|I].
+        - injection E as E1 E2. subst k p. left. simpl. exists i'.
+          simpl in SE. destruct (amp_settle_htlcs H (c_set c) (c_key c) pm (i_htlcs i)) as [r'|]; [|discriminate].
+          rewrite HH in SE. simpl in SE.
+          assert (IS : in_set (c_set c) (new_amp_htlc c total addr) = true) by (unfold in_set; simpl; apply N.eqb_refl).
+          rewrite IS in SE. unfold is_state in SE. simpl in SE. rewrite FP in SE.
+          destruct (N.eqb (H p1) (c_hash c)); [|discriminate]. inv SE.
+          eexists. split; [exact IN'|]. split; [eapply KEPT; [left; reflexivity|reflexivity|left; reflexivity]|].
+          rewrite EA, IA. split; reflexivity.
+        - destruct (ntf_amp_settled _ _ _ _ _ _ _ _ _ D I) as [x [IX [SX [_ EP]]]].
+          destruct (REC _ _ IX SX) as [IN2|[IN1 KV]].
+          + destruct (ao_pre H g i' OK' _ _ IN2 SX) as [q [Q _]]. rewrite Q in EP. subst p.
+            left. simpl. exists i', x. rewrite EA, IA. auto.
+          + destruct (ao_pre H g i OK _ _ IN1 SX) as [q [Q _]]. rewrite Q in EP. subst p.
+            destruct KV as [KV|IN2].
+            * right. split; [exact KV|]. exists i, x. rewrite IA. auto.
+            * left. simpl. exists i', x. rewrite EA, IA. auto. }
+      destruct (g_kv g) eqn:KV.
+      * destruct (amp_apply_settle H true i (c_key c) h (c_set c) pm) as [[i' hs]|] eqn:A;
+          [|intro X; inv X; simpl; tauto].
+        destruct (dup_set st i (c_set c)); [intro X; inv X; simpl; tauto|].
+        simpl. destruct (deliver _ _) as [sb out] eqn:D. intro X; inv X. unfold settle_outs. simpl.
+        intro I. eapply MAIN; eauto.
+      * destruct (dup_set st i (c_set c)); [intro X; inv X; simpl; tauto|].
+        destruct (amp_apply_settle H false i (c_key c) h (c_set c) pm) as [[i' hs]|] eqn:A;
+          [|intro X; inv X; simpl; tauto].
+        simpl. destruct (deliver _ _) as [sb out] eqn:D. intro X; inv X. unfold settle_outs. simpl.
+        intro I. eapply MAIN; eauto.
+Qed.
+
 Lemma notify_locked_settles st c st' o k p :
-  state_ok H g st -> notify_locked H g st c = (st', o) ->
-  In (k, p) (settle_outs o) -> settled_in (invs st') k p.
+  state_ok H g st -> notify_locked H R g st c = (st', o) ->
+  In (k, p) (settle_outs o) -> settled_around st st' k p.
 Proof.
   intros SO. unfold notify_locked. destruct (ctx_ref c) as [rh ra] eqn:CR.
   destruct (lookup_ref (g_kv g) (invs st) rh ra) as [i|] eqn:L;
     [|unfold fail_now; intro X; inv X; simpl; tauto].
-  destruct (i_amp i && c_amp c && _) eqn:G; [intro X; inv X; simpl; tauto|].
   assert (II : In i (invs st)) by (eapply lookup_ref_in; eauto).
+  destruct (i_amp i && match find_htlc (c_key c) (i_htlcs i) with Some h => _ | None => false end) eqn:GD;
+    [intro X; inv X; simpl; tauto|].
+  destruct (i_amp i && c_amp c && match c_mpp c with Some _ => true | None => false end) eqn:G.
+  { destruct (c_mpp c) as [[a t]|]; [|intro X; inv X; simpl; tauto].
+    apply notify_amp_settles; auto.
+    apply andb_true_iff in G. destruct G as [G _]. apply andb_true_iff in G. tauto. }
   match goal with
   | |- (match ?u with Some _ => _ | None => _ end) = _ -> _ => destruct u as [[[i' r] ch]|] eqn:U
   end; [|intro X; inv X; simpl; tauto].
   assert (A : In i' (if ch then put_inv i' (invs st) else invs st) /\
               forall k1 p1 ah oc, r = Some (NSettle k1 p1 ah oc) ->
-                (exists h, In (k1, h) (i_htlcs i') /\ h_state h = HSettled) /\ i_pre i' = Some p1).
+                (exists h, In (k1, h) (i_htlcs i') /\ h_state h = HSettled) /\ i_pre i' = Some p1 /\
+                i_amp i' = false).
   { destruct (find_htlc (c_key c) (i_htlcs i)) as [h0|] eqn:F.
-    - destruct (h_state h0) eqn:HS.
+    - assert (NA : i_amp i = false).
+      { destruct (i_amp i); [|reflexivity]. destruct (c_amp c); destruct (c_mpp c); simpl in *; discriminate. }
+      destruct (h_state h0) eqn:HS.
       + inv U. split; [auto|]. intros; discriminate.
       + inv U. split; [auto|]. intros; discriminate.
       + destruct (i_pre i) eqn:P; [|discriminate]. destruct (N.eqb _ _); inv U.
@@ -1221,11 +1910,14 @@ Proof.
     - destruct (update_invoice H g c i) as [oc|h ns r0|] eqn:UI; try discriminate.
       + inv U. split; [auto|]. intros; discriminate.
       + destruct (apply_add H i rh (c_key c) h ns) as [i2|] eqn:AA; [|discriminate]. inv U.
-        split.
-        * eapply put_inv_in; eauto. unfold apply_add in AA.
+        destruct (uadd_ref H g c i h ns r0 UI G) as [_ NA].
+        assert (SH : i_hash i' = i_hash i /\ i_amp i' = i_amp i).
+        { unfold apply_add in AA.
           destruct (find_htlc _ _); [discriminate|].
           destruct (match ns with Some _ => _ | None => _ end); [|discriminate].
-          destruct (align_htlcs _ _); [|discriminate]. inv AA. reflexivity.
+          destruct (align_htlcs _ _); [|discriminate]. inv AA. auto. }
+        split.
+        * eapply put_inv_in; eauto. symmetry. apply SH.
         * intros k1 p1 ah oc E. destruct r0 as [[p0 oc0]|]; [|discriminate]. inv E.
           destruct (update_settle_res _ _ _ _ _ _ UI) as [P [HA [[NS ST]|[NS ST]]]]; subst ns.
           -- apply apply_add_some_open in AA; auto.
@@ -1238,12 +1930,12 @@ Proof.
              rewrite settle_f_state, HA. reflexivity. }
   destruct A as [IN RS].
   destruct r as [[k1 p1 ah oc|k1 ah oc]|].
-  - destruct (RS k1 p1 ah oc eq_refl) as [[h1 [I1 S1]] P1].
+  - destruct (RS k1 p1 ah oc eq_refl) as [[h1 [I1 S1]] [P1 NA']].
     destruct (deliver _ _) as [sb out] eqn:D. intro X; inv X. unfold settle_outs. simpl.
-    intros [E|I].
-    + inv E. exists i', h1. auto.
+    intros [E|I]; left; simpl.
+    + inv E. exists i', h1. rewrite NA'. auto.
     + destruct (ntf_settled _ _ _ _ _ _ _ _ D I) as [E [h2 [I2 S2]]]. subst.
-      exists i', h2. auto.
+      exists i', h2. rewrite NA'. auto.
   - destruct (deliver _ _) as [sb out] eqn:D. intro X; inv X. unfold settle_outs. simpl.
     intro I. exfalso. destruct (is_set_failure oc).
     + eapply ntf_fail_nosettle; [|exact D|exact I]. reflexivity.
@@ -1252,43 +1944,56 @@ Proof.
 Qed.
 
 Theorem step_settles st e st' o k p :
-  state_ok H g st -> step H g st e = (st', o) ->
-  In (k, p) (settle_outs o) -> settled_in (invs st') k p.
+  state_ok H g st -> step H R g st e = (st', o) ->
+  In (k, p) (settle_outs o) ->
+  settled_in (invs st') k p \/
+  (g_kv g = true /\ exists st1, state_ok H g st1 /\ settled_in (invs st1) k p).
 Proof.
-  intros SO. destruct e as [i|c|p0|h f|h a k0]; simpl.
+  intros SO. destruct e as [i|c|p0|h f|h a k0|sid k0]; simpl.
   - destruct (add_invoice g st i) as [s1 a]. intro X; inv X. simpl. tauto.
-  - unfold notify. destruct (g_keysend g && negb (c_amp c)).
-    + destruct (process_keysend H g st c) as [st1|] eqn:PK.
-      * apply notify_locked_settles.
-        assert (SH : shape H g (invs st) (invs st1)).
-        { unfold process_keysend in PK. destruct (c_ks c); try discriminate.
-          - inv PK. apply S_same; reflexivity.
-          - destruct (negb _); [discriminate|]. destruct (c_mpp c); [discriminate|].
-            destruct (Z.ltb _ _); [discriminate|]. inv PK.
-            match goal with |- shape _ _ _ (invs (fst ?x)) => destruct x as [s2 a2] eqn:AI end.
-            simpl. eapply add_invoice_shape; eauto. }
-        generalize (shape_ok H g st (invs st1) (subs st1) SO SH). destruct st1; auto.
+  - assert (NL : forall st1, state_ok H g st1 -> notify_locked H R g st1 c = (st', o) ->
+                 In (k, p) (settle_outs o) ->
+                 settled_in (invs st') k p \/
+                 (g_kv g = true /\ exists st2, state_ok H g st2 /\ settled_in (invs st2) k p)).
+    { intros st1 SO1 N I. destruct (notify_locked_settles st1 c st' o k p SO1 N I) as [X|[KV X]];
+        [left; auto|right; split; [auto|exists st1; auto]]. }
+    unfold notify. destruct (g_amp g && c_amp c).
+    + destruct (process_amp g st c) as [st1|] eqn:PK.
+      * apply NL. generalize (shape_ok H R g st (invs st1) (subs st1) SO (process_amp_shape H R g _ _ _ PK)).
+        destruct st1; auto.
       * unfold fail_now. intro X; inv X. simpl. tauto.
-    + apply notify_locked_settles. exact SO.
+    + destruct (g_keysend g && negb (c_amp c)).
+      * destruct (process_keysend H g st c) as [st1|] eqn:PK.
+        -- apply NL. generalize (shape_ok H R g st (invs st1) (subs st1) SO (process_keysend_shape H R g _ _ _ PK)).
+           destruct st1; auto.
+        -- unfold fail_now. intro X; inv X. simpl. tauto.
+      * apply NL. exact SO.
   - unfold settle_hodl.
     destruct (lookup_ref _ _ _ _) as [i|] eqn:L; [|intro X; inv X; simpl; tauto].
     destruct (i_state i) eqn:S; try (intro X; inv X; simpl; tauto).
     destruct (apply_settle_hodl H i p0) as [i'|] eqn:A; [|intro X; inv X; simpl; tauto].
     destruct (deliver _ _) as [sb out] eqn:D. intro X; inv X. unfold settle_outs. simpl.
     intro I. destruct (ntf_settled _ _ _ _ _ _ _ _ D I) as [E [h2 [I2 S2]]]. subst.
-    exists i', h2. repeat split; auto.
-    + eapply put_inv_in; [eapply lookup_ref_in; eauto|].
-      symmetry. apply (trans_hash H g). eapply T_settle; eauto.
+    left. exists i', h2.
+    assert (II : In i (invs st)) by (eapply lookup_ref_in; eauto).
+    assert (NA : i_amp i = false).
+    { destruct (i_amp i) eqn:IA; [|reflexivity]. exfalso.
+      assert (OK : amp_ok H g i) by (apply ok_amp; [auto|apply SO; auto]).
+      destruct (ao_state H g i OK); congruence. }
+    assert (T : trans H R g i i') by (eapply T_settle; eauto).
+    destruct (trans_hash H R g i i' T) as [EH EA]. rewrite EA, NA.
+    repeat split; auto.
+    + eapply put_inv_in; eauto.
     + unfold apply_settle_hodl in A. destruct (negb (i_hodl i)); [discriminate|].
       destruct (negb _); [discriminate|]. destruct (negb _); [discriminate|]. inv A. reflexivity.
   - unfold cancel_invoice.
     destruct (lookup_ref _ _ _ _) as [i|] eqn:L; [|intro X; inv X; simpl; tauto].
     destruct (i_state i) eqn:S; try (intro X; inv X; simpl; tauto).
-    + simpl. destruct (apply_cancel i) as [i'|]; [|intro X; inv X; simpl; tauto].
+    + simpl. destruct (if i_amp i then _ else _) as [i'|]; [|intro X; inv X; simpl; tauto].
       destruct (deliver _ _) as [sb out] eqn:D. intro X; inv X. unfold settle_outs. simpl.
       intro I. exfalso. eapply ntf_fail_nosettle; [|exact D|exact I]. reflexivity.
     + destruct (cstate_eqb CAccepted CAccepted && negb f); [intro X; inv X; simpl; tauto|].
-      destruct (apply_cancel i) as [i'|]; [|intro X; inv X; simpl; tauto].
+      destruct (if i_amp i then _ else _) as [i'|]; [|intro X; inv X; simpl; tauto].
       destruct (deliver _ _) as [sb out] eqn:D. intro X; inv X. unfold settle_outs. simpl.
       intro I. exfalso. eapply ntf_fail_nosettle; [|exact D|exact I]. reflexivity.
   - unfold timeout_htlc.
@@ -1296,6 +2001,18 @@ Proof.
     destruct (negb (cstate_eqb (i_state i) COpen)); [intro X; inv X; simpl; tauto|].
     destruct (find_htlc k0 (i_htlcs i)) as [h0|]; [|intro X; inv X; simpl; tauto].
     destruct (negb (is_state HAccepted h0)); [intro X; inv X; simpl; tauto|].
+    destruct (if i_amp i then _ else _) as [i'|]; [|intro X; inv X; simpl; tauto].
+    destruct (deliver _ _) as [sb out] eqn:D. intro X; inv X. unfold settle_outs. simpl.
+    intro I. exfalso.
+    eapply (ntf_fail_nosettle (fun _ => NFail k0 (h_height h0) F_MppTimeout) [(k0, h0)]);
+      [|exact D|exact I]. reflexivity.
+  - unfold timeout_set.
+    destruct (find _ (invs st)) as [i|]; [|intro X; inv X; simpl; tauto].
+    destruct (negb (cstate_eqb (i_state i) COpen)); [intro X; inv X; simpl; tauto|].
+    destruct (find_htlc k0 (i_htlcs i)) as [h0|]; [|intro X; inv X; simpl; tauto].
+    destruct (negb (in_set sid h0)); [intro X; inv X; simpl; tauto|].
+    destruct (negb (is_state HAccepted h0)); [intro X; inv X; simpl; tauto|].
+    destruct (amp_cancel_one i k0 h0) as [i'|]; [|intro X; inv X; simpl; tauto].
     destruct (deliver _ _) as [sb out] eqn:D. intro X; inv X. unfold settle_outs. simpl.
     intro I. exfalso.
     eapply (ntf_fail_nosettle (fun _ => NFail k0 (h_height h0) F_MppTimeout) [(k0, h0)]);
@@ -1309,6 +2026,7 @@ End Outs.
 
 Section Final.
 Variable H : N -> N.
+Variable R : list (N * N) -> list (N * N).
 Variable g : cfg.
 
 Lemma process_keysend_none st c : c_ks c = KSNone -> process_keysend H g st c = Some st.
@@ -1317,10 +2035,11 @@ Proof. unfold process_keysend. intro E. rewrite E. reflexivity. Qed.
 Theorem replay_same_verdict st c i h st' rp ntf :
   state_ok H g st ->
   g_keysend g = false \/ c_ks c = KSNone ->
+  g_amp g = false \/ c_amp c = false ->
   lookup_ref (g_kv g) (invs st) (fst (ctx_ref c)) (snd (ctx_ref c)) = Some i ->
   fst (ctx_ref c) = Some (c_hash c) -> i_amp i = false ->
   find_htlc (c_key c) (i_htlcs i) = Some h ->
-  notify H g st c = (st', (rp, ntf)) ->
+  notify H R g st c = (st', (rp, ntf)) ->
   invs st' = invs st /\
   match h_state h with
   | HAccepted => rp = RpDirect DNil
@@ -1329,15 +2048,17 @@ Theorem replay_same_verdict st c i h st' rp ntf :
                           rp = RpDirect (DRes (NSettle (c_key c) p (c_height c) S_ReplayToSettled))
   end.
 Proof.
-  intros SO NJ L RH NA F N.
-  assert (NL : notify_locked H g st c = (st', (rp, ntf))).
-  { unfold notify in N. destruct NJ as [E|E].
+  intros SO NJ NJA L RH NA F N.
+  assert (NL : notify_locked H R g st c = (st', (rp, ntf))).
+  { unfold notify in N.
+    assert (E0 : g_amp g && c_amp c = false) by (destruct NJA as [E|E]; rewrite E; auto using andb_false_r).
+    rewrite E0 in N. destruct NJ as [E|E].
     - rewrite E in N. exact N.
     - rewrite (process_keysend_none st c E) in N. destruct (g_keysend g && negb (c_amp c)); exact N. }
   clear N. unfold notify_locked in NL. destruct (ctx_ref c) as [rh ra]. simpl in *.
   rewrite L, NA, F in NL. simpl in NL.
   assert (II : In i (invs st)) by (eapply lookup_ref_in; eauto).
-  assert (OK : inv_ok H g i) by (destruct SO as [_ X]; auto).
+  assert (OK : inv_ok H g i) by (apply ok_nonamp; [auto|destruct SO as [_ X]; auto]).
   assert (EH : i_hash i = c_hash c) by (subst rh; eapply lookup_ref_hash; eauto).
   destruct (h_state h) eqn:HS.
   - rewrite F in NL. inv NL. auto.
@@ -1350,19 +2071,49 @@ Proof.
     destruct (deliver _ _) as [sb out]. inv NL. split; [reflexivity|]. exists p. repeat split; auto; congruence.
 Qed.
 
-(* what the invariant says about any settled record *)
+(* replay of an AMP htlc recorded in its set on its AMP invoice, no JIT pre-check *)
+Theorem replay_same_verdict_amp st c i h a t st' rp ntf :
+  state_ok H g st ->
+  g_amp g = false ->
+  c_amp c = true -> c_mpp c = Some (a, t) -> c_path c = None ->
+  lookup_ref (g_kv g) (invs st) None (Some a) = Some i -> i_amp i = true ->
+  find_htlc (c_key c) (i_htlcs i) = Some h -> h_set h = Some (c_set c) -> h_hash h = c_hash c ->
+  notify H R g st c = (st', (rp, ntf)) ->
+  invs st' = invs st /\
+  match h_state h with
+  | HAccepted => rp = RpDirect DNil
+  | HCanceled => rp = RpDirect (DRes (NFail (c_key c) (h_height h) F_ReplayToCanceled))
+  | HSettled => exists p, h_pre h = Some p /\ H p = c_hash c /\
+                          rp = RpDirect (DRes (NSettle (c_key c) p (c_height c) S_ReplayToSettled))
+  end.
+Proof.
+  intros SO GA CA CM CP L IA F HSET HH N.
+  unfold notify in N. rewrite GA, CA in N. simpl in N. rewrite andb_false_r in N.
+  unfold notify_locked, ctx_ref in N. rewrite CP, CM, CA in N. rewrite L, IA, F in N.
+  assert (IS : in_set (c_set c) h = true) by (apply in_set_iff; auto).
+  simpl in N. rewrite IS in N. simpl in N.
+  assert (II : In i (invs st)) by (eapply lookup_ref_in; eauto).
+  assert (OK : amp_ok H g i) by (apply ok_amp; [auto|destruct SO as [_ X]; auto]).
+  unfold notify_amp in N. rewrite F in N.
+  destruct (h_state h) eqn:HS.
+  - inv N. auto.
+  - inv N. auto.
+  - destruct (ao_pre H g i OK _ _ (find_htlc_in _ _ _ F) HS) as [p [P HP]]. rewrite P in N.
+    rewrite HH, HP, HH, N.eqb_refl in N. simpl in N.
+    destruct (deliver _ _) as [sb out]. inv N. split; [reflexivity|]. exists p. repeat split; auto. congruence.
+Qed.
+
+(* what the invariant says about any settled record on a non-AMP invoice *)
 Theorem settled_record_sound st i k h :
-  state_ok H g st -> In i (invs st) -> In (k, h) (i_htlcs i) -> h_state h = HSettled ->
+  state_ok H g st -> In i (invs st) -> i_amp i = false ->
+  In (k, h) (i_htlcs i) -> h_state h = HSettled ->
   i_state i = CSettled /\
   (exists p, i_pre i = Some p /\ H p = h_hash h /\ i_hash i = h_hash h) /\
-  (* payment address *)
   match h_addr h with
   | Some a => a = i_addr i
   | None => i_addr_req i = false \/ h_ks h = true
   end /\
-  (* final CLTV margins at acceptance *)
   (u32 (h_height h + g_rd g) <= h_expiry h)%Z /\ (u32 (h_height h + i_delta i) <= h_expiry h)%Z /\
-  (* amounts *)
   (h_total h = 0%N -> (i_value i <= h_amt h)%N) /\
   (h_total h <> 0%N ->
      (i_value i <= h_total h)%N /\
@@ -1370,7 +2121,7 @@ Theorem settled_record_sound st i k h :
                     h_total h' = h_total h) /\
      (h_total h <= wsum (fun x => is_state HSettled x && negb (N.eqb (h_total x) 0)) (i_htlcs i))%N).
 Proof.
-  intros [_ OKS] II I HS. assert (OK := OKS i II).
+  intros [_ OKS] II NA I HS. assert (OK := ok_nonamp H g i NA (OKS i II)).
   assert (ST : i_state i = CSettled).
   { destruct (i_state i) eqn:S; auto; exfalso; eapply (ok_nosettled H g i OK); eauto; congruence. }
   destruct (ok_data H g i OK k h I) as (D1 & D2 & D3 & D4 & D5 & D6).
@@ -1386,31 +2137,60 @@ Proof.
     apply negb_true_iff. apply N.eqb_neq. auto.
 Qed.
 
+(* ... and on an AMP invoice: the htlc's own reconstructed preimage hashes to
+   its payment hash, it carried the invoice's payment address and a set id,
+   left both margins, and the htlcs settled together with it (same `h_gen`)
+   belong to its set, declare its total (not below the invoice value) and pay
+   at least that total *)
+Theorem settled_record_sound_amp st i k h :
+  state_ok H g st -> In i (invs st) -> i_amp i = true ->
+  In (k, h) (i_htlcs i) -> h_state h = HSettled ->
+  (i_state i = COpen \/ i_state i = CCanceled) /\
+  (exists p, h_pre h = Some p /\ H p = h_hash h) /\
+  (exists s, h_set h = Some s) /\ h_addr h = Some (i_addr i) /\
+  (u32 (h_height h + g_rd g) <= h_expiry h)%Z /\ (u32 (h_height h + i_delta i) <= h_expiry h)%Z /\
+  h_total h <> 0%N /\ (i_value i <= h_total h)%N /\
+  (forall k' h', In (k', h') (i_htlcs i) -> h_state h' = HSettled -> h_gen h' = h_gen h ->
+                 h_set h' = h_set h /\ h_total h' = h_total h) /\
+  (h_total h <= wsum (batch (h_gen h)) (i_htlcs i))%N.
+Proof.
+  intros [_ OKS] II IA I HS. assert (OK := ok_amp H g i IA (OKS i II)).
+  destruct (ao_data H g i OK k h I) as (D1 & D2 & D3 & D4 & D5 & D6).
+  split; [apply OK|]. split; [eapply ao_pre; eauto|].
+  repeat split; auto.
+  - eapply (ao_common H g i OK k h k' h'); eauto.
+  - eapply (ao_common H g i OK k h k' h'); eauto.
+  - eapply ao_complete; eauto.
+Qed.
+
 Theorem records_forward st1 evs st2 outs i1 k h1 :
-  state_ok H g st1 -> run H g st1 evs = (st2, outs) ->
+  state_ok H g st1 -> run H R g st1 evs = (st2, outs) ->
   In i1 (invs st1) -> In (k, h1) (i_htlcs i1) ->
+  i_amp i1 = false \/ g_kv g = false ->
   exists i2 h2,
     In i2 (invs st2) /\ i_hash i2 = i_hash i1 /\ In (k, h2) (i_htlcs i2) /\
     (forall x, In (k, x) (i_htlcs i2) -> x = h2) /\
     (h_state h1 = HSettled -> h_state h2 = HSettled) /\
     (h_state h1 = HCanceled -> h_state h2 = HCanceled) /\
     same_rec h1 h2 /\
-    (forall j x, In j (invs st2) -> In (k, x) (i_htlcs j) -> h_hash x = h_hash h1 -> j = i2).
+    (i_amp i1 = false ->
+     forall j x, In j (invs st2) -> i_amp j = false -> In (k, x) (i_htlcs j) ->
+                 h_hash x = h_hash h1 -> j = i2).
 Proof.
-  intros SO R II I.
+  intros SO RR II I G.
   assert (SO2 : state_ok H g st2) by (eapply run_ok; eauto).
-  destruct (run_le H g st1 evs st2 outs SO R i1 II) as [i2 [I2 (L1 & _ & _ & _ & _ & L6)]].
-  destruct (L6 k h1 I) as [h2 [IH [LE SR]]].
+  destruct (run_le H R g st1 evs st2 outs SO RR i1 II) as [i2 [I2 (L1 & _ & _ & LA & _ & _ & L6)]].
+  destruct (L6 G k h1 I) as [h2 [IH [LE SR]]].
   exists i2, h2. destruct SO2 as [ND2 OK2]. assert (O2 := OK2 i2 I2).
-  destruct SR as (R1 & R2 & R3 & R4 & R5). unfold same_rec.
+  assert (SR' := SR). destruct SR as (R1 & R2 & R3 & R4 & R5 & R6).
   repeat split; auto.
-  - intros x IX. apply (in_find_htlc _ _ _ (ok_nodup H g i2 O2)) in IX.
-    apply (in_find_htlc _ _ _ (ok_nodup H g i2 O2)) in IH. congruence.
+  - intros x IX. apply (in_find_htlc _ _ _ (ok_nodup_keys H g i2 O2)) in IX.
+    apply (in_find_htlc _ _ _ (ok_nodup_keys H g i2 O2)) in IH. congruence.
   - intro S. destruct LE; congruence.
   - intro S. destruct LE; congruence.
-  - intros j x IJ IX EX. eapply nodup_hash_eq; eauto.
-    destruct (ok_data H g j (OK2 j IJ) k x IX) as [DJ _].
-    destruct SO as [_ OK1]. destruct (ok_data H g i1 (OK1 i1 II) k h1 I) as [D1 _].
+  - intros NA j x IJ NJ IX EX. eapply nodup_hash_eq; eauto.
+    destruct (ok_data H g j (ok_nonamp H g j NJ (OK2 j IJ)) k x IX) as [DJ _].
+    destruct SO as [_ OK1]. destruct (ok_data H g i1 (ok_nonamp H g i1 NA (OK1 i1 II)) k h1 I) as [D1 _].
     congruence.
 Qed.
 
@@ -1418,20 +2198,83 @@ End Final.
 
 (* ---- the JIT keysend pre-check refutes the replay clause (finding C15-F1) ---- *)
 Definition wit_H (p : N) : N := if N.eqb p 1 then 1%N else 0%N.
-Definition wit_cfg : cfg := mkCfg 4 true false true.
+Definition wit_R (l : list (N * N)) : list (N * N) := [].
+Definition wit_cfg : cfg := mkCfg 4 true false true false.
 Definition wit_ctx (height : Z) : hctx :=
-  mkCtx 1 3 1000 110 height None false None 0 (KSPre 1).
+  mkCtx 1 3 1000 110 height None false None 0 (KSPre 1) 0 0 0.
 Definition wit_events : list event :=
-  [EAdd (mkInv 1 0 1000 (Some 1%N) 9 false false false COpen [] 0); ENotify (wit_ctx 100)].
+  [EAdd (mkInv 1 0 1000 (Some 1%N) 9 false false false COpen [] 0 []); ENotify (wit_ctx 100)].
 
 Lemma replay_keysend_refuted :
-  let st := fst (run wit_H wit_cfg init wit_events) in
-  snd (run wit_H wit_cfg init wit_events) =
+  let st := fst (run wit_H wit_R wit_cfg init wit_events) in
+  snd (run wit_H wit_R wit_cfg init wit_events) =
     [(RpApi AOk, []); (RpDirect (DRes (NSettle 3 1 100 S_Settled)), [])] /\
   (exists i h, In i (invs st) /\ find_htlc 3 (i_htlcs i) = Some h /\ h_state h = HSettled) /\
-  fst (snd (notify wit_H wit_cfg st (wit_ctx 117))) =
+  fst (snd (notify wit_H wit_R wit_cfg st (wit_ctx 117))) =
     RpDirect (DRes (NFail 3 117 F_KeySendError)).
 Proof.
   vm_compute. split; [reflexivity|]. split; [|reflexivity].
   eexists. eexists. split; [left; reflexivity|]. split; reflexivity.
+Qed.
+
+(* ---- AMP analogue of C15-F1: with AcceptAMP the expiry pre-check of processAMP
+   runs before the replay lookup ---- *)
+(* preimage 10+n hashes to 20+n; a single share s with index 0 reconstructs
+   to (hash 20+s, preimage 10+s) *)
+Definition ampw_H (p : N) : N := (p + 10)%N.
+Definition ampw_R (l : list (N * N)) : list (N * N) :=
+  match l with
+  | [(s, _)] => [((s + 20)%N, (s + 10)%N)]
+  | _ => []
+  end.
+Definition ampw_inv : invoice := mkInv 5 7 1000 None 4 false true false COpen [] 0 [].
+(* htlc key k, share s (hash 20+s), set id sid, amount = total = 1000 *)
+Definition ampw_ctx (k s sid : N) (height : Z) : hctx :=
+  mkCtx (s + 20) k 1000 110 height (Some (7%N, 1000%N)) true None 0 KSNone sid s 0.
+
+Lemma replay_amp_jit_refuted :
+  let g := mkCfg 4 false false false true in
+  let st := fst (run ampw_H ampw_R g init [EAdd ampw_inv; ENotify (ampw_ctx 1 1 3 100)]) in
+  snd (run ampw_H ampw_R g init [EAdd ampw_inv; ENotify (ampw_ctx 1 1 3 100)]) =
+    [(RpApi AOk, []); (RpDirect (DRes (NSettle 1 11 100 S_Settled)), [])] /\
+  (exists i h, In i (invs st) /\ find_htlc 1 (i_htlcs i) = Some h /\ h_state h = HSettled) /\
+  fst (snd (notify ampw_H ampw_R g st (ampw_ctx 1 1 3 117))) =
+    RpDirect (DRes (NFail 1 117 F_AmpError)).
+Proof.
+  vm_compute. split; [reflexivity|]. split; [|reflexivity].
+  eexists. eexists. split; [left; reflexivity|]. split; reflexivity.
+Qed.
+
+(* ---- finding C15-F2: on the KV store a complete AMP payment into an already
+   settled set id rewrites the stored set; the settled record of htlc 1
+   disappears, its replay is processed as a NEW htlc (outcome Settled, AmtPaid
+   counted again) -- on the SQL store the record stays and the replay is
+   answered ReplayToSettled ---- *)
+Definition f2_events : list event :=
+  [EAdd ampw_inv; ENotify (ampw_ctx 1 1 3 100); ENotify (ampw_ctx 2 2 3 100)].
+
+Lemma amp_kv_reuse_refuted :
+  let kv := mkCfg 4 false false true false in
+  let sql := mkCfg 4 false false false false in
+  let st1 := fst (run ampw_H ampw_R kv init [EAdd ampw_inv; ENotify (ampw_ctx 1 1 3 100)]) in
+  let st2 := fst (run ampw_H ampw_R kv init f2_events) in
+  let sq2 := fst (run ampw_H ampw_R sql init f2_events) in
+  (* htlc 1 is recorded settled ... *)
+  (exists i h, In i (invs st1) /\ find_htlc 1 (i_htlcs i) = Some h /\ h_state h = HSettled) /\
+  (* ... and after the second payment into set 3 no invoice holds a record of it (KV) *)
+  (forall i, In i (invs st2) -> find_htlc 1 (i_htlcs i) = None) /\
+  (* its replay is settled as a new htlc and paid twice *)
+  fst (snd (notify ampw_H ampw_R kv st2 (ampw_ctx 1 1 3 100))) =
+    RpDirect (DRes (NSettle 1 11 100 S_Settled)) /\
+  map i_paid (invs (fst (notify ampw_H ampw_R kv st2 (ampw_ctx 1 1 3 100)))) = [3000%N] /\
+  (* SQL: record kept, replay answered from it, AmtPaid unchanged *)
+  (exists i h, In i (invs sq2) /\ find_htlc 1 (i_htlcs i) = Some h /\ h_state h = HSettled) /\
+  fst (snd (notify ampw_H ampw_R sql sq2 (ampw_ctx 1 1 3 100))) =
+    RpDirect (DRes (NSettle 1 11 100 S_ReplayToSettled)) /\
+  map i_paid (invs (fst (notify ampw_H ampw_R sql sq2 (ampw_ctx 1 1 3 100)))) = [2000%N].
+Proof.
+  vm_compute. repeat split; try reflexivity.
+  - eexists. eexists. split; [left; reflexivity|]. split; reflexivity.
+  - intros i [E|[]]. subst. reflexivity.
+  - eexists. eexists. split; [left; reflexivity|]. split; reflexivity.
 Qed.
